@@ -19,20 +19,26 @@
      read, its transformer and the acceptors on it ([abs_step], [chk07_abs] ...: they commute with ScreenMon's);
      [Core m u l ex hs]: the link (ideal stack = concrete stack; outstanding requests, reader running, typed lines;
      error counters; request table / fired callbacks vs. the handlers' one-shot callbacks; the pending
-     InputReadySignals of all queues are announcements of the hand-off list, pairwise distinct; at most one
-     InputReceivedSignal in flight, carrying the line the reader took; the handler table);
+     InputReadySignals of all queues are, as a multiset, announcements of the hand-off list ([PSub]: handler objects
+     may be reused, so several entries may carry the same handler); at most one InputReceivedSignal in flight - in
+     [ext] (the reader answers when the loop is idle) or already queued (type-ahead) - carrying the line the reader
+     took; per handler the last ready signal it got since it last asked ([c_last], for T_WAITED); the handler table;
+     and, when every request has a fresh handler ([fresh], [FreshInv]): answered handlers, the handlers of the hand-off
+     list and of the request stack are pairwise distinct (for [chk_once]));
      [Inv] = accepted so far + Core + "quiet" (no follow-up pending, no line waiting for its input());
      [At s m u l ex hs]: symbolic state; rules a_rd, a_wr, a_ev, a_enq, ... on it; "Inv-triples" [IT p];
      one lemma per Python method (same names as in ScreenSem.v): IT_push, IT_replace, IT_schedule, IT_push_modal,
-     t_handler_get_input (start_input_thread), t_get_input_rest / IT_get_input, IT_get_input_blocking,
+     t_handler_get_input (start_input_thread, with and without type-ahead), t_get_input_rest / IT_get_input,
+     IT_get_input_blocking, IT_handler_ask / IT_handler_wait / t_waited (the application's own InputHandler objects),
      IT_close_screen, IT_draw_screen (C17), IT_process_screen, t_pir (process_input_result: C07),
      t_process_input, H_ready (input_ready_handler: C06), H_received (the hand-off: C18);
      G_pop ... G_handler: the hypotheses of [spec_all]; [screen_spec_all]; [session_acc].
    Part 3: [Inv_init], [all_accepted].
-   Hypothesis of the end result: [wf_session_gen strict fargs specl quit acts] - every screen id used by the
+   Hypothesis of the end result: [wf_session_gen strict fresh fargs specl quit acts] - every screen id used by the
    session is one of its screens (out of range, upd_scr is a no-op and the model's counters freeze), and, when
    [strict], every screen is always scheduled with the arguments [fargs screen] (needed for the arguments
-   clause of chk_C06 only: finding F15). *)
+   clause of chk_C06 only: finding F15), and, when [fresh], the session has no SHandlerAsk (needed for chk_once only:
+   [no_handler_objects], [wf_session_fresh]). *)
 From SL Require Import Tac.
 From RecordUpdate Require Import RecordUpdate.
 From SL Require Import PyInt LoopSem.
@@ -496,14 +502,14 @@ Record mw := {
   m_stack : list entry; m_req : list (nat * (nat * nat)); m_typed : list (option str); m_line : str;
   m_istack : list nat; m_proc : bool; m_hand : list (nat * bool * str); m_recv : list nat; m_fired : list nat;
   m_must : option (nat * nat * str); m_err : list (nat * nat); m_follow : option follow;
-  m_prev : option (nat * list nat) }.
+  m_prev : option (nat * list nat); m_last : list (nat * option (bool * str)) }.
 #[export] Instance eta_mw : Settable _ :=
-  settable! Build_mw <m_stack; m_req; m_typed; m_line; m_istack; m_proc; m_hand; m_recv; m_fired; m_must; m_err; m_follow; m_prev>.
+  settable! Build_mw <m_stack; m_req; m_typed; m_line; m_istack; m_proc; m_hand; m_recv; m_fired; m_must; m_err; m_follow; m_prev; m_last>.
 
 Definition absw (w : sworld) : mw :=
   {| m_stack := sw_stack w; m_req := sw_req w; m_typed := sw_typed w; m_line := sw_line w; m_istack := sw_istack w;
      m_proc := sw_processing w; m_hand := sw_handoff w; m_recv := sw_received w; m_fired := sw_fired w;
-     m_must := sw_must_input w; m_err := sw_err w; m_follow := sw_follow w; m_prev := sw_prev_user w |}.
+     m_must := sw_must_input w; m_err := sw_err w; m_follow := sw_follow w; m_prev := sw_prev_user w; m_last := sw_last w |}.
 
 Definition err_in (er : list (nat * nat)) (scr : nat) : nat := match alookup scr er with Some n => n | None => 0 end.
 Definition merr_of (m : mw) (scr : nat) : nat := err_in (m_err m) scr.
@@ -530,13 +536,15 @@ Definition muser (m : mw) (tag : nat) (a : list nat) (text : str) : mw :=
       <| m_follow := match m_follow m with Some FReprompt => None | x => x end |>
   else if (tag =? T_PROMPT)%nat then
     if (nth0 a 1 =? 0)%nat then
-      m <| m_istack := nth0 a 0 :: m_istack m |> <| m_proc := true |>
+      m <| m_istack := nth0 a 0 :: m_istack m |> <| m_last := (nth0 a 0, None) :: m_last m |> <| m_proc := true |>
         <| m_line := match m_typed m with Some l :: _ => l | _ => [] end |> <| m_typed := tl (m_typed m) |>
-    else m <| m_istack := nth0 a 0 :: m_istack m |>
+    else m <| m_istack := nth0 a 0 :: m_istack m |> <| m_last := (nth0 a 0, None) :: m_last m |>
   else if (tag =? T_READY)%nat then
     let n := nth0 a 0 in
     let m1 := m <| m_recv := n :: m_recv m |>
-                <| m_hand := remove_first (fun x => (fst (fst x) =? n)%nat) (m_hand m) |> in
+                <| m_last := (n, Some ((nth0 a 1 =? 1)%nat, text)) :: m_last m |>
+                <| m_hand := remove_first (fun x => (fst (fst x) =? n)%nat && Bool.eqb (snd (fst x)) (nth0 a 1 =? 1)%nat && streq (snd x) text)
+                                          (m_hand m) |> in
     if (nth0 a 1 =? 1)%nat && negb (mem n (m_fired m)) then
       match alookup n (m_req m) with
       | Some (scr, args) => m1 <| m_must := Some (scr, args, text) |> <| m_fired := n :: m_fired m |>
@@ -688,6 +696,12 @@ Definition mchk18 (m : mw) (e : event) : bool :=
     else if (tag =? T_PROMPT)%nat then Bool.eqb (nth0 a 1 =? 0)%nat (negb (m_proc m))
     else if (tag =? T_READY)%nat then hand_has m a text
     else if (tag =? T_GOT)%nat then mem (nth0 a 1) (m_recv m)
+    else if (tag =? T_WAITED)%nat then
+      match alookup (nth0 a 1) (m_last m) with
+      | Some (Some (ok, v)) =>
+        Bool.eqb ok (nth0 a 2 =? 1)%nat && (negb ok || ((nth0 a 3 =? 1)%nat && streq v text))
+      | _ => false
+      end
     else true
   | _ => true
   end.
@@ -749,9 +763,10 @@ Definition mchk_once (m : mw) (e : event) : bool :=
 Lemma chk_once_abs w e : chk_once w e = mchk_once (absw w) e.
 Proof. reflexivity. Qed.
 
-Definition mchk_all (strict : bool) (quit : option nat) (nosep : list bool) (m : mw) (e : event) : bool :=
-  mchk17 nosep m e && mchk07 quit m e && mchk18 m e && mchk06 strict m e && mchk_once m e.
-Definition chk_all (strict : bool) quit nosep (w : sworld) (e : event) : bool := mchk_all strict quit nosep (absw w) e.
+(* [strict]: with the comparison of the arguments in chk_C06; [fresh]: with chk_once *)
+Definition mchk_all (strict fresh : bool) (quit : option nat) (nosep : list bool) (m : mw) (e : event) : bool :=
+  mchk17 nosep m e && mchk07 quit m e && mchk18 m e && mchk06 strict m e && (mchk_once m e || negb fresh).
+Definition chk_all (strict fresh : bool) quit nosep (w : sworld) (e : event) : bool := mchk_all strict fresh quit nosep (absw w) e.
 
 (* ---------------------------------------------------------------- lists, queues, pending signals *)
 From Coq Require Import Permutation.
@@ -1049,25 +1064,42 @@ Proof.
 Qed.
 
 (* ---------------------------------------------------------------- well-formed sessions: screen ids are in range *)
-Fixpoint scmd_wf (N : nat) (strict : bool) (fargs : nat -> nat) (c : scmd) : bool :=
+(* [strict]: every screen is always scheduled with the arguments [fargs screen];
+   [fresh]: the application has no InputHandler objects of its own (no SHandlerAsk): every request has a fresh handler *)
+Fixpoint scmd_wf (N : nat) (strict fresh : bool) (fargs : nat -> nat) (c : scmd) : bool :=
   let ok s a := (s <? N)%nat && (negb strict || (a =? fargs s)%nat) in
   match c with
   | SPush s a | SPushModal s a | SReplace s a | SSchedule s a => ok s a
-  | SIfCount _ t e => forallb (scmd_wf N strict fargs) t && forallb (scmd_wf N strict fargs) e
+  | SHandlerAsk _ _ => negb fresh
+  | SIfCount _ t e => forallb (scmd_wf N strict fresh fargs) t && forallb (scmd_wf N strict fresh fargs) e
   | _ => true
   end.
-Definition cmds_wf N strict fargs (l : list scmd) : bool := forallb (scmd_wf N strict fargs) l.
-Definition spec_wf N strict fargs (sp : screen_spec) : bool :=
-  cmds_wf N strict fargs (sc_refresh sp) && cmds_wf N strict fargs (sc_show sp) && cmds_wf N strict fargs (sc_closed sp) &&
-  forallb (fun x => cmds_wf N strict fargs (fst (snd x))) (sc_input sp) && cmds_wf N strict fargs (fst (sc_input_default sp)).
-Definition quit_wf N (strict : bool) (fargs : nat -> nat) (quit : option nat) : bool :=
+Definition cmds_wf N strict fresh fargs (l : list scmd) : bool := forallb (scmd_wf N strict fresh fargs) l.
+Definition spec_wf N strict fresh fargs (sp : screen_spec) : bool :=
+  cmds_wf N strict fresh fargs (sc_refresh sp) && cmds_wf N strict fresh fargs (sc_show sp) && cmds_wf N strict fresh fargs (sc_closed sp) &&
+  forallb (fun x => cmds_wf N strict fresh fargs (fst (snd x))) (sc_input sp) && cmds_wf N strict fresh fargs (fst (sc_input_default sp)).
+Definition quit_wf N (strict fresh : bool) (fargs : nat -> nat) (quit : option nat) : bool :=
   match quit with Some q => (q <? N)%nat && (negb strict || (0 =? fargs q)%nat) | None => true end.
-Definition acts_wf N strict fargs (acts : list saction) : bool :=
-  forallb (fun a => match a with SACmds l => cmds_wf N strict fargs l | SARun => true end) acts.
-Definition wf_session_gen (strict : bool) fargs (specl : list screen_spec) (quit : option nat) (acts : list saction) : bool :=
-  forallb (spec_wf (length specl) strict fargs) specl && quit_wf (length specl) strict fargs quit &&
-  acts_wf (length specl) strict fargs acts.
-Definition wf_session := wf_session_gen false (fun _ => 0).
+Definition acts_wf N strict fresh fargs (acts : list saction) : bool :=
+  forallb (fun a => match a with SACmds l => cmds_wf N strict fresh fargs l | SARun => true end) acts.
+Definition wf_session_gen (strict fresh : bool) fargs (specl : list screen_spec) (quit : option nat) (acts : list saction) : bool :=
+  forallb (spec_wf (length specl) strict fresh fargs) specl && quit_wf (length specl) strict fresh fargs quit &&
+  acts_wf (length specl) strict fresh fargs acts.
+Definition wf_session := wf_session_gen false false (fun _ => 0).
+
+(* the application has no InputHandler objects of its own: no SHandlerAsk anywhere in the session *)
+Fixpoint scmd_noask (c : scmd) : bool :=
+  match c with
+  | SHandlerAsk _ _ => false
+  | SIfCount _ t e => forallb scmd_noask t && forallb scmd_noask e
+  | _ => true
+  end.
+Definition spec_noask (sp : screen_spec) : bool :=
+  forallb scmd_noask (sc_refresh sp) && forallb scmd_noask (sc_show sp) && forallb scmd_noask (sc_closed sp) &&
+  forallb (fun x => forallb scmd_noask (fst (snd x))) (sc_input sp) && forallb scmd_noask (fst (sc_input_default sp)).
+Definition no_handler_objects (specl : list screen_spec) (acts : list saction) : bool :=
+  forallb spec_noask specl &&
+  forallb (fun a => match a with SACmds l => forallb scmd_noask l | SARun => true end) acts.
 
 Lemma scmd_ind' (P : scmd -> Prop) :
   (forall c, (match c with SIfCount _ _ _ => False | _ => True end) -> P c) ->
@@ -1098,6 +1130,77 @@ Definition isrecv (sg : signal) : bool := (sg_cls sg =? CLS_RECEIVED)%nat.
 Definition triple (sg : signal) : nat * bool * str := (sg_a sg, sg_b sg, sg_data sg).
 Definition hid_of (x : nat * bool * str) : nat := fst (fst x).
 
+(* when every request has a fresh handler: handlers that got their ready signal are gone for good; the handlers of the
+   hand-off list and of the request stack are pairwise distinct *)
+Record FreshInv (recv : list nat) (hand : list (nat * bool * str)) (ist : list nat) (len : nat) : Prop := {
+  f_recv : forall n, mem n recv = true -> n < len /\ ~ In n ist /\ ~ In n (map hid_of hand);
+  f_hand_nd : NoDup (map hid_of hand);
+  f_hand_lt : forall x, In x hand -> hid_of x < len /\ ~ In (hid_of x) ist;
+  f_ist_nd : NoDup ist;
+  f_ist_lt : forall n, In n ist -> n < len }.
+
+Lemma FreshInv_len r h i len len' : len <= len' -> FreshInv r h i len -> FreshInv r h i len'.
+Proof.
+  intros L [A B C D E]. constructor; auto.
+  - intros n M. destruct (A n M) as (X & Y & Z). repeat split; auto; lia.
+  - intros x I. destruct (C x I). split; auto; lia.
+  - intros n I. specialize (E n I). lia.
+Qed.
+
+Lemma FreshInv_handoff r h top rest len (ln : str) : FreshInv r h (top :: rest) len ->
+  FreshInv r (h ++ (top, true, ln) :: map (fun x : nat => (x, false, [])) (rev rest)) [] len.
+Proof.
+  intros [A B C D E].
+  assert (TNI : ~ In top rest) by (inversion D; assumption).
+  assert (RND : NoDup rest) by (inversion D; assumption).
+  assert (DISJ : forall x, In x (top :: rest) -> ~ In x (map hid_of h)).
+  { intros x I J. apply in_map_iff in J. destruct J as (y & Ey & J). destruct (C y J) as [_ K]. apply K. rewrite Ey. exact I. }
+  assert (IDS : map hid_of (h ++ (top, true, ln) :: map (fun x : nat => (x, false, [])) (rev rest)) = map hid_of h ++ top :: rev rest).
+  { rewrite map_app. cbn [map hid_of fst]. rewrite map_map. cbn [hid_of fst]. rewrite map_id. reflexivity. }
+  constructor.
+  - intros n M. destruct (A n M) as (X & Y & Z). split; [exact X|]. split; [intros []|]. rewrite IDS.
+    intros I. apply in_app_or in I. destruct I as [I|[<-|I]]; [auto|apply Y; left; reflexivity|].
+    rewrite <- in_rev in I. apply Y. right. exact I.
+  - rewrite IDS. apply nodup_app; [exact B| |].
+    + constructor; [rewrite <- in_rev; exact TNI|]. apply NoDup_rev. exact RND.
+    + intros x I [<-|J]; [apply (DISJ top); [left; reflexivity|exact I]|]. rewrite <- in_rev in J. apply (DISJ x); [right; exact J|exact I].
+  - intros x I. split; [|auto]. apply in_app_or in I. destruct I as [I|[<-|I]].
+    + apply C, I.
+    + apply E. left. reflexivity.
+    + apply in_map_iff in I. destruct I as (y & <- & I). rewrite <- in_rev in I. apply E. right. exact I.
+  - constructor.
+  - intros ? [].
+Qed.
+
+Lemma PSub_handoff {A} (old hand : list A) (x : A) (m m' : list A) :
+  PSub old hand -> Permutation m m' -> PSub (m' ++ x :: old) (hand ++ x :: m).
+Proof.
+  intros [r P] PM. exists r.
+  replace ((m' ++ x :: old) ++ r) with (m' ++ x :: (old ++ r)) by (rewrite <- app_assoc; reflexivity).
+  eapply perm_trans; [apply Permutation_app_comm|]. cbn [app].
+  eapply perm_trans; [|apply Permutation_middle]. apply perm_skip.
+  apply Permutation_app; [exact PM|exact P].
+Qed.
+
+Lemma FreshInv_new r h i len : FreshInv r h i len ->
+  ~ In len i /\ ~ In len (map hid_of h) /\ mem len r = false.
+Proof.
+  intros [A B C D E]. repeat split.
+  - intros I. specialize (E _ I). lia.
+  - intros I. apply in_map_iff in I. destruct I as (x & X & I). destruct (C x I). lia.
+  - destruct (mem len r) eqn:M; [|reflexivity]. destruct (A _ M). lia.
+Qed.
+
+Lemma FreshInv_push r h i len k : k < len -> ~ In k i -> ~ In k (map hid_of h) -> mem k r = false ->
+  FreshInv r h i len -> FreshInv r h (k :: i) len.
+Proof.
+  intros KL KI KH KR [A B C D E]. constructor; auto.
+  - intros n M. destruct (A n M) as (X & Y & Z). repeat split; auto. intros [<-|I]; [congruence|auto].
+  - intros x I. destruct (C x I) as [X Y]. split; [exact X|]. intros [E1|I2]; [|auto]. apply KH. rewrite E1. apply in_map, I.
+  - constructor; assumption.
+  - intros n [<-|I]; auto.
+Qed.
+
 Lemma set_ust_same {U} (s : lstate U) : s <| ust := ust s |> = s.
 Proof. destruct s; reflexivity. Qed.
 
@@ -1108,16 +1211,17 @@ Section Scr.
   Variable quit : option nat.
   Variable nosep : list bool.
   Variable strict : bool.
+  Variable fresh : bool.
   Variable fargs : nat -> nat.
-  Hypothesis Hwf : forall scr, spec_wf N strict fargs (specs scr) = true.
-  Hypothesis Hquit : quit_wf N strict fargs quit = true.
+  Hypothesis Hwf : forall scr, spec_wf N strict fresh fargs (specs scr) = true.
+  Hypothesis Hquit : quit_wf N strict fresh fargs quit = true.
   Hypothesis Hnosep : forall scr, nth scr nosep false = sc_no_separator (specs scr).
   Notation lst := (lstate sstate).
   Implicit Types s : lst.
   Implicit Types Q : outcome -> lst -> Prop.
 
-  Definition mchk := mchk_all strict quit nosep.
-  Definition acc s : Prop := sacc (chk_all strict quit nosep) typed s.
+  Definition mchk := mchk_all strict fresh quit nosep.
+  Definition acc s : Prop := sacc (chk_all strict fresh quit nosep) typed s.
   Notation MWs := (MW typed).
 
   Lemma acc_emit e s : acc (emit e s) <-> acc s /\ mchk (MWs s) e = true.
@@ -1138,8 +1242,10 @@ Section Scr.
     c_owner : forall n, ih_cb (ih_of u n) = true ->
        ih_owner (ih_of u n) < N /\ sc_prompt_none (specs (ih_owner (ih_of u n))) = false;
     c_recv : forall n, ih_received (ih_of u n) = true -> mem n (m_recv m) = true;
-    c_recv_fresh : forall n, mem n (m_recv m) = true ->
-       n < length (st_ih u) /\ ~ In n (st_istack u) /\ ~ In n (map hid_of (m_hand m));
+    c_last : forall n, ih_received (ih_of u n) = true ->
+       exists v, alookup n (m_last m) = Some (Some (ih_success (ih_of u n), v)) /\
+                 (ih_success (ih_of u n) = true -> ih_value (ih_of u n) = Some v);
+    c_fresh : fresh = true -> FreshInv (m_recv m) (m_hand m) (st_istack u) (length (st_ih u));
     c_sep : forall pa, m_prev m = Some (T_SEPARATOR, pa) -> sc_no_separator (specs (nth0 pa 0)) = false;
     c_quit : st_quit u = quit;
     c_nscr : length (st_scr u) = N;
@@ -1147,22 +1253,16 @@ Section Scr.
     c_args : strict = true -> forall n scr args, alookup n (m_req m) = Some (scr, args) ->
        args = fargs scr /\ ss_input_args (scr_of u scr) = args;
     c_hs : hs = htable (length (st_ih u));
-    c_p_ready : forall sg, In sg l -> sg_cls sg = CLS_READY -> In (triple sg) (m_hand m);
-    c_p_nodup : NoDup (map sg_a (filter isready l));
+    c_p_ready : PSub (map triple (filter isready l)) (m_hand m);
     c_p_recv : forall sg, In sg l -> sg_cls sg = CLS_RECEIVED -> sg_data sg = m_line m;
     c_e_recv : forall sp, In sp ex -> sp_cls sp = CLS_RECEIVED /\ sp_data sp = m_line m;
     c_fl_cnt : length (filter isrecv l) + length ex <= 1;
-    c_fl_proc : length (filter isrecv l) + length ex = 1 -> st_processing u = true;
-    c_hand_nd : NoDup (map hid_of (m_hand m));
-    c_hand_lt : forall x, In x (m_hand m) -> hid_of x < length (st_ih u) /\ ~ In (hid_of x) (st_istack u);
-    c_ist_nd : NoDup (st_istack u);
-    c_ist_lt : forall n, In n (st_istack u) -> n < length (st_ih u) }.
+    c_fl_proc : length (filter isrecv l) + length ex = 1 -> st_processing u = true }.
 
   Lemma Core_sub m u l l' ex hs : PSub l l' -> Core m u l' ex hs -> Core m u l ex hs.
   Proof.
     intros S C. destruct C. constructor; auto.
-    - intros sg I. apply c_p_ready0. eapply PSub_in; eauto.
-    - eapply PSub_nodup; [|exact c_p_nodup0]. apply PSub_map, PSub_filter, S.
+    - eapply PSub_trans; [|exact c_p_ready0]. apply PSub_map, PSub_filter, S.
     - intros sg I. apply c_p_recv0. eapply PSub_in; eauto.
     - pose proof (PSub_length _ _ (PSub_filter isrecv _ _ S)). lia.
     - intros H. apply c_fl_proc0. pose proof (PSub_length _ _ (PSub_filter isrecv _ _ S)). lia.
@@ -1192,8 +1292,7 @@ Section Scr.
   (* ------------------------------------------------------------ rules on views *)
   Definition SigPre (sg : signal) (idx : nat) (s : lst) : Prop :=
     (sg_cls sg = CLS_READY -> idx <= sg_a sg ->
-       In (triple sg) (m_hand (MWs s)) /\
-       forall sg', In sg' (pendl s) -> sg_cls sg' = CLS_READY -> sg_a sg' <> sg_a sg) /\
+       PSub (triple sg :: map triple (filter isready (pendl s))) (m_hand (MWs s))) /\
     (sg_cls sg = CLS_RECEIVED -> idx = 0 ->
        sg_data sg = m_line (MWs s) /\ filter isrecv (pendl s) = [] /\ ext s = []).
   Definition okspec (sp : sigspec) : Prop := sp_cls sp <> CLS_READY /\ sp_cls sp <> CLS_RECEIVED.
@@ -1384,19 +1483,17 @@ Section Scr.
   Ltac open_inv HI :=
     let m := fresh "m" in
     destruct (Inv_open _ HI) as (m & u & l & ex & hs & HAt & HC & HQt);
-    destruct m as [mstk mreq mty mln mist mpr mhd mrc mfi mmu mer mfo mpv];
+    destruct m as [mstk mreq mty mln mist mpr mhd mrc mfi mmu mer mfo mpv mls];
     destruct HQt as [HQf HQm]; cbn in HQf, HQm; subst mmu;
     pose proof HC as HC0;
-    destruct HC0 as [c_stack0 c_istack0 c_proc0 c_typed0 c_err0 c_cb_req0 c_cb_no0 c_req_lt0 c_owner0 c_recv0 c_recv_fresh0 c_sep0 c_quit0
-                    c_nscr0 c_stk_wf0 c_args0 c_hs0 c_p_ready0 c_p_nodup0 c_p_recv0 c_e_recv0 c_fl_cnt0 c_fl_proc0
-                    c_hand_nd0 c_hand_lt0 c_ist_nd0 c_ist_lt0];
-    cbn [m_stack m_req m_typed m_line m_istack m_proc m_hand m_recv m_fired m_must m_err m_follow m_prev] in *; unfold merr_of, ih_of, scr_of in *; cbn [m_err] in *.
+    destruct HC0 as [c_stack0 c_istack0 c_proc0 c_typed0 c_err0 c_cb_req0 c_cb_no0 c_req_lt0 c_owner0 c_recv0 c_last0 c_fresh0 c_sep0 c_quit0
+                    c_nscr0 c_stk_wf0 c_args0 c_hs0 c_p_ready0 c_p_recv0 c_e_recv0 c_fl_cnt0 c_fl_proc0];
+    cbn [m_stack m_req m_typed m_line m_istack m_proc m_hand m_recv m_fired m_must m_err m_follow m_prev m_last] in *; unfold merr_of, ih_of, scr_of in *; cbn [m_err] in *.
 
   Lemma Core_cons_other m u l ex hs sg : sg_cls sg <> CLS_READY -> sg_cls sg <> CLS_RECEIVED ->
     Core m u l ex hs -> Core m u (sg :: l) ex hs.
   Proof.
     intros N1 N2 C. destruct C. constructor; auto.
-    - intros sg' [<-|I] E; [contradiction|auto].
     - cbn [filter]. unfold isready at 1. destruct (sg_cls sg =? CLS_READY)%nat eqn:E; [apply Nat.eqb_eq in E; contradiction|auto].
     - intros sg' [<-|I] E; [contradiction|auto].
     - cbn [filter]. unfold isrecv at 1. destruct (sg_cls sg =? CLS_RECEIVED)%nat eqn:E; [apply Nat.eqb_eq in E; contradiction|auto].
@@ -1429,10 +1526,10 @@ Section Scr.
     lazymatch type of H with
     | At ?s ?m ?u ?l ?ex ?hs =>
       let m' := eval cbn in (Build_mw (m_stack m) (m_req m) (m_typed m) (m_line m) (m_istack m) (m_proc m) (m_hand m)
-                                      (m_recv m) (m_fired m) (m_must m) (m_err m) (m_follow m) (m_prev m)) in
+                                      (m_recv m) (m_fired m) (m_must m) (m_err m) (m_follow m) (m_prev m) (m_last m)) in
       change (At s m' u l ex hs) in H
     end.
-  Ltac mproj := cbn [m_stack m_req m_typed m_line m_istack m_proc m_hand m_recv m_fired m_must m_err m_follow m_prev];
+  Ltac mproj := cbn [m_stack m_req m_typed m_line m_istack m_proc m_hand m_recv m_fired m_must m_err m_follow m_prev m_last];
                 unfold merr_of; cbn [m_err].
 
   Ltac chk_side HQf := first [reflexivity | destruct HQf as [->|[? ->]]; reflexivity].
@@ -1502,7 +1599,7 @@ Section Scr.
     all: step HAt; [chk_side HQf|]; apply HQ; (eapply At_Inv; [exact HAt| |quiet_auto HQf]); core_auto.
   Qed.
 
-  Lemma IT_push (sc a : nat) : scmd_wf N strict fargs (SPush sc a) = true -> forall cn self cnt, IT (do_scmd specs cn self cnt (SPush sc a)).
+  Lemma IT_push (sc a : nat) : scmd_wf N strict fresh fargs (SPush sc a) = true -> forall cn self cnt, IT (do_scmd specs cn self cnt (SPush sc a)).
   Proof.
     intros WF cn self cnt n Q s0 HS HI HQ. open_inv HI. cbn [do_scmd]. unfold new_sd, ev_stack.
     cbn [scmd_wf] in WF. apply wf_ok in WF. destruct WF as [WF1 WF2].
@@ -1517,7 +1614,7 @@ Section Scr.
   Lemma IT_wr_first : IT (wr (fun u => u <| st_first := true |>)).
   Proof. intros n Q s HS HI HQ. open_inv HI. step HAt. apply HQ. eapply At_Inv; [exact HAt|core_auto|quiet_auto HQf]. Qed.
 
-  Lemma IT_schedule (sc a : nat) : scmd_wf N strict fargs (SSchedule sc a) = true -> forall cn self cnt, IT (do_scmd specs cn self cnt (SSchedule sc a)).
+  Lemma IT_schedule (sc a : nat) : scmd_wf N strict fresh fargs (SSchedule sc a) = true -> forall cn self cnt, IT (do_scmd specs cn self cnt (SSchedule sc a)).
   Proof.
     intros WF cn self cnt n Q s0 HS HI HQ. open_inv HI. cbn [do_scmd]. unfold new_sd, ev_stack.
     cbn [scmd_wf] in WF. apply wf_ok in WF. destruct WF as [WF1 WF2].
@@ -1535,7 +1632,7 @@ Section Scr.
   Lemma b2n_eqb b : (b2n b =? 1)%nat = b.
   Proof. destruct b; reflexivity. Qed.
 
-  Lemma IT_replace (sc a : nat) : scmd_wf N strict fargs (SReplace sc a) = true -> forall cn self cnt, IT (do_scmd specs cn self cnt (SReplace sc a)).
+  Lemma IT_replace (sc a : nat) : scmd_wf N strict fresh fargs (SReplace sc a) = true -> forall cn self cnt, IT (do_scmd specs cn self cnt (SReplace sc a)).
   Proof.
     intros WF cn self cnt n Q s0 HS HI HQ. open_inv HI. cbn [do_scmd]. unfold new_sd, ev_stack.
     cbn [scmd_wf] in WF. apply wf_ok in WF. destruct WF as [WF1 WF2].
@@ -1583,16 +1680,33 @@ Section Scr.
   Ltac simp_match := match goal with |- wpS _ _ _ _ (match ?c with _ => _ end) _ _ => let c' := eval cbn in c in change c with c' end.
   Ltac seqs := repeat lazymatch goal with |- wpS _ _ _ _ (PSeq _ _) _ _ => apply wpS_seq end.
 
-  (* InputHandler.get_input of a handler that is not outstanding *)
+  (* InputHandler.get_input: _clear_input(), start_input_thread; when every request has a fresh handler (fresh = true)
+     the handler must be one that never asked *)
   Lemma t_handler_get_input k skip nf Q s :
-    SP nf -> Inv s -> k < length (st_ih (ust s)) -> ~ In k (st_istack (ust s)) ->
-    ~ In k (map hid_of (m_hand (MWs s))) -> mem k (m_recv (MWs s)) = false ->
+    SP nf -> Inv s ->
+    (fresh = true -> k < length (st_ih (ust s)) /\ ~ In k (st_istack (ust s)) /\
+                     ~ In k (map hid_of (m_hand (MWs s))) /\ mem k (m_recv (MWs s)) = false) ->
     (forall o s', Inv s' -> Q o s') -> W nf (handler_get_input k skip) Q s.
   Proof.
-    intros HS HI KL KI KH KR HQ. open_inv HI.
-    rewrite (at_u _ _ _ _ _ _ HAt) in KL, KI. rewrite (at_m _ _ _ _ _ _ HAt) in KH, KR. cbn [m_hand m_recv] in KH, KR.
-    assert (RF : forall j, mem j mrc = true -> j < length (st_ih u) /\ ~ In j (k :: st_istack u) /\ ~ In j (map hid_of mhd)).
-    { intros j M. destruct (c_recv_fresh0 j M) as (A & B & C). split; [exact A|split; [|exact C]]. intros [E|I]; [subst j; congruence|auto]. }
+    intros HS HI KF HQ. open_inv HI.
+    rewrite (at_u _ _ _ _ _ _ HAt), (at_m _ _ _ _ _ _ HAt) in KF. cbn [m_hand m_recv] in KF.
+    assert (FR : fresh = true -> FreshInv mrc mhd (k :: st_istack u) (length (st_ih u))).
+    { intros F. destruct (KF F) as (A & B & C & D). apply FreshInv_push; auto. }
+    assert (LC : forall (lst : list (nat * option (bool * str))) j,
+              (lst = mls \/ lst = (k, None) :: mls) ->
+              ih_received (nth j (upd_nth (st_ih u) k (fun h => h <| ih_received := false |> <| ih_value := None |>))
+                 {| ih_src := None; ih_owner := 0; ih_cb := false; ih_received := false; ih_success := false; ih_value := None |}) = true ->
+              exists v, alookup j lst = Some (Some (ih_success (nth j (upd_nth (st_ih u) k (fun h => h <| ih_received := false |> <| ih_value := None |>))
+                 {| ih_src := None; ih_owner := 0; ih_cb := false; ih_received := false; ih_success := false; ih_value := None |}), v)) /\
+                (ih_success (nth j (upd_nth (st_ih u) k (fun h => h <| ih_received := false |> <| ih_value := None |>))
+                 {| ih_src := None; ih_owner := 0; ih_cb := false; ih_received := false; ih_success := false; ih_value := None |}) = true ->
+                 ih_value (nth j (upd_nth (st_ih u) k (fun h => h <| ih_received := false |> <| ih_value := None |>))
+                 {| ih_src := None; ih_owner := 0; ih_cb := false; ih_received := false; ih_success := false; ih_value := None |}) = Some v)).
+    { intros lst j HL. rewrite nth_upd_nth. destruct (j =? k)%nat eqn:EJ; cbn [andb].
+      - destruct (k <? length (st_ih u))%nat eqn:LK; [cbn; discriminate|].
+        apply Nat.eqb_eq in EJ. subst j. apply Nat.ltb_ge in LK. rewrite nth_overflow by exact LK. cbn. discriminate.
+      - intros R. destruct (c_last0 j R) as (v & A & B). exists v. split; [|exact B].
+        destruct HL as [->| ->]; [exact A|]. cbn [alookup]. rewrite EJ. exact A. }
     unfold handler_get_input, start_input_thread.
     steps HAt HQf. cbn [st_istack set upd_ih] in *.
     destruct (negb (length (k :: st_istack u) =? 1)%nat && negb skip) eqn:CND.
@@ -1600,29 +1714,27 @@ Section Scr.
       apply andb_true_iff in CND. destruct CND as [CND _]. apply negb_true_iff, Nat.eqb_neq in CND. cbn [length] in CND.
       assert (NE : st_istack u <> []) by (destruct (st_istack u); [cbn in CND; lia|discriminate]).
       seqs. step HAt.
-      { unfold mchk, mchk_all. cbn [mchk17 mchk07 mchk18 mchk06 T_REFUSED T_SHOW T_SEPARATOR T_READY T_INPUT T_PROMPT T_GOT Nat.eqb].
+      { unfold mchk, mchk_all. cbn [mchk17 mchk07 mchk18 mchk06 mchk_once T_REFUSED T_SHOW T_SEPARATOR T_READY T_INPUT T_PROMPT T_GOT T_WAITED Nat.eqb].
         mproj. rewrite c_istack0. rewrite (chk_refused_ok k _ NE).
         destruct HQf as [->|[? ->]]; reflexivity. }
       steps HAt HQf. eapply a_throw; [exact HAt|]. cbn. apply HQ.
       eapply At_Inv; [exact HAt| |quiet_auto HQf].
-      core_auto; rewrite ?upd_nth_length; auto; try (intros j; rewrite nth_upd_nth; destruct ((j =? k)%nat && (k <? length (st_ih u))%nat); cbn; auto; discriminate).
+      core_auto; rewrite ?upd_nth_length; auto; try (intros j; rewrite nth_upd_nth; destruct ((j =? k)%nat && (k <? length (st_ih u))%nat); cbn; auto; discriminate);
+          try (intros j; first [apply (LC ((k, None) :: mls)); right; reflexivity | apply (LC mls); left; reflexivity]).
     - (* accepted *)
       apply andb_false_iff in CND.
       seqs. step HAt. cbv beta iota. steps HAt HQf. simp_if.
       destruct (st_processing u) eqn:PR.
       + (* a reader is already running: only the prompt is printed again *)
         step HAt.
-        { unfold mchk, mchk_all. cbn [mchk17 mchk07 mchk18 mchk06 T_REFUSED T_SHOW T_SEPARATOR T_READY T_INPUT T_PROMPT T_GOT Nat.eqb nth0 nth].
+        { unfold mchk, mchk_all. cbn [mchk17 mchk07 mchk18 mchk06 mchk_once T_REFUSED T_SHOW T_SEPARATOR T_READY T_INPUT T_PROMPT T_GOT T_WAITED Nat.eqb nth0 nth].
           mproj. rewrite c_proc0. destruct HQf as [->|[? ->]]; reflexivity. }
         apply HQ. eapply At_Inv; [exact HAt| |quiet_auto HQf].
         core_auto; rewrite ?upd_nth_length; auto;
-          try (intros j; rewrite nth_upd_nth; destruct ((j =? k)%nat && (k <? length (st_ih u))%nat); cbn; auto; discriminate).
+          try (intros j; rewrite nth_upd_nth; destruct ((j =? k)%nat && (k <? length (st_ih u))%nat); cbn; auto; discriminate);
+          try (intros j; first [apply (LC ((k, None) :: mls)); right; reflexivity | apply (LC mls); left; reflexivity]).
         * congruence.
         * congruence.
-        * intros x I. destruct (c_hand_lt0 x I) as [L1 L2]. split; [exact L1|]. intros [E|I2]; [|auto].
-          apply KH. rewrite E. apply in_map, I.
-        * constructor; assumption.
-        * intros j [<-|I]; auto.
       + (* start the reader thread *)
         assert (NOFL : filter isrecv l = [] /\ ex = []).
         { destruct (filter isrecv l) as [|x r] eqn:F1; destruct ex as [|y r2] eqn:F2; auto; exfalso.
@@ -1630,33 +1742,44 @@ Section Scr.
           all: assert (X : st_processing u = true) by (apply c_fl_proc0; lia); congruence. }
         destruct NOFL as [NF1 NF2].
         steps HAt HQf. unfold start_thread. steps HAt HQf.
-        { unfold mchk, mchk_all. cbn [mchk17 mchk07 mchk18 mchk06 T_REFUSED T_SHOW T_SEPARATOR T_READY T_INPUT T_PROMPT T_GOT Nat.eqb nth0 nth].
+        { unfold mchk, mchk_all. cbn [mchk17 mchk07 mchk18 mchk06 mchk_once T_REFUSED T_SHOW T_SEPARATOR T_READY T_INPUT T_PROMPT T_GOT T_WAITED Nat.eqb nth0 nth].
           mproj. rewrite c_proc0. destruct HQf as [->|[? ->]]; reflexivity. }
         simp_match.
         destruct (st_typed u) as [|ln rest] eqn:TY.
         * step HAt. apply HQ. eapply At_Inv; [exact HAt| |quiet_auto HQf].
           core_auto; rewrite ?upd_nth_length; auto;
-            try (intros j; rewrite nth_upd_nth; destruct ((j =? k)%nat && (k <? length (st_ih u))%nat); cbn; auto; discriminate).
+            try (intros j; rewrite nth_upd_nth; destruct ((j =? k)%nat && (k <? length (st_ih u))%nat); cbn; auto; discriminate);
+          try (intros j; first [apply (LC ((k, None) :: mls)); right; reflexivity | apply (LC mls); left; reflexivity]).
           -- congruence.
           -- rewrite c_typed0, ?TY. reflexivity.
           -- intros sg I E. pose proof (filter_nil_in isrecv l sg NF1 I) as X. unfold isrecv in X. rewrite E in X. discriminate X.
           -- subst ex. intros sp [].
-          -- intros x I. destruct (c_hand_lt0 x I) as [L1 L2]. split; [exact L1|]. intros [E|I2]; [|auto].
-             apply KH. rewrite E. apply in_map, I.
-          -- constructor; assumption.
-          -- intros j [<-|I]; auto.
-        * steps HAt HQf. apply HQ. eapply At_Inv; [exact HAt| |quiet_auto HQf].
-          core_auto; rewrite ?upd_nth_length; auto;
-            try (intros j; rewrite nth_upd_nth; destruct ((j =? k)%nat && (k <? length (st_ih u))%nat); cbn; auto; discriminate).
-          -- congruence.
-          -- rewrite c_typed0, ?TY. reflexivity.
-          -- intros sg I E. pose proof (filter_nil_in isrecv l sg NF1 I) as X. unfold isrecv in X. rewrite E in X. discriminate X.
-          -- subst ex. intros sp [<-|[]]. split; [reflexivity|]. rewrite c_typed0. destruct ln; reflexivity.
-          -- rewrite NF1. subst ex. cbn. lia.
-          -- intros x I. destruct (c_hand_lt0 x I) as [L1 L2]. split; [exact L1|]. intros [E|I2]; [|auto].
-             apply KH. rewrite E. apply in_map, I.
-          -- constructor; assumption.
-          -- intros j [<-|I]; auto.
+        * seqs. step HAt. simp_if. destruct (st_typeahead u).
+          -- (* type-ahead: the reader thread's enqueue_signal(InputReceivedSignal) lands at once *)
+             eapply a_enq; [exact HAt|chk_side HQf|]. intros s' id HAt'. clear HAt.
+             match type of HAt' with At _ (m_enq ?M ?sp) _ _ _ _ =>
+               assert (EM : m_enq M sp = M) by (destruct HQf as [->|[? ->]]; reflexivity); rewrite EM in HAt'; clear EM end.
+             rename HAt' into HAt.
+             apply HQ. eapply At_Inv; [exact HAt| |quiet_auto HQf].
+             core_auto; rewrite ?upd_nth_length; auto;
+               try (intros j; rewrite nth_upd_nth; destruct ((j =? k)%nat && (k <? length (st_ih u))%nat); cbn; auto; discriminate);
+          try (intros j; first [apply (LC ((k, None) :: mls)); right; reflexivity | apply (LC mls); left; reflexivity]).
+             ++ congruence.
+             ++ rewrite c_typed0, ?TY. reflexivity.
+             ++ intros sg [<-|I] E.
+                ** cbn. rewrite c_typed0. destruct ln; reflexivity.
+                ** pose proof (filter_nil_in isrecv l sg NF1 I) as X. unfold isrecv in X. rewrite E in X. discriminate X.
+             ++ subst ex. intros sp [].
+             ++ rewrite NF1. subst ex. cbn. lia.
+          -- step HAt. apply HQ. eapply At_Inv; [exact HAt| |quiet_auto HQf].
+             core_auto; rewrite ?upd_nth_length; auto;
+               try (intros j; rewrite nth_upd_nth; destruct ((j =? k)%nat && (k <? length (st_ih u))%nat); cbn; auto; discriminate);
+          try (intros j; first [apply (LC ((k, None) :: mls)); right; reflexivity | apply (LC mls); left; reflexivity]).
+             ++ congruence.
+             ++ rewrite c_typed0, ?TY. reflexivity.
+             ++ intros sg I E. pose proof (filter_nil_in isrecv l sg NF1 I) as X. unfold isrecv in X. rewrite E in X. discriminate X.
+             ++ subst ex. intros sp [<-|[]]. split; [reflexivity|]. rewrite c_typed0. destruct ln; reflexivity.
+             ++ rewrite NF1. subst ex. cbn. lia.
   Qed.
 
   Definition reprompt_ok (m : mw) (scr args : nat) : Prop :=
@@ -1664,21 +1787,20 @@ Section Scr.
 
   Ltac core_open HC :=
     let HC0 := fresh "HC0" in pose proof HC as HC0;
-    destruct HC0 as [c_stack0 c_istack0 c_proc0 c_typed0 c_err0 c_cb_req0 c_cb_no0 c_req_lt0 c_owner0 c_recv0 c_recv_fresh0 c_sep0 c_quit0
-                    c_nscr0 c_stk_wf0 c_args0 c_hs0 c_p_ready0 c_p_nodup0 c_p_recv0 c_e_recv0 c_fl_cnt0 c_fl_proc0
-                    c_hand_nd0 c_hand_lt0 c_ist_nd0 c_ist_lt0];
-    cbn [m_stack m_req m_typed m_line m_istack m_proc m_hand m_recv m_fired m_must m_err m_follow m_prev] in *;
+    destruct HC0 as [c_stack0 c_istack0 c_proc0 c_typed0 c_err0 c_cb_req0 c_cb_no0 c_req_lt0 c_owner0 c_recv0 c_last0 c_fresh0 c_sep0 c_quit0
+                    c_nscr0 c_stk_wf0 c_args0 c_hs0 c_p_ready0 c_p_recv0 c_e_recv0 c_fl_cnt0 c_fl_proc0];
+    cbn [m_stack m_req m_typed m_line m_istack m_proc m_hand m_recv m_fired m_must m_err m_follow m_prev m_last] in *;
     unfold merr_of, ih_of, scr_of in *; cbn [m_err] in *.
 
   (* the rest of InputManager.get_input after the prompt was obtained (T_REQ) *)
-  Lemma t_get_input_rest nf scr args Q s mstk mreq mty mln mist mpr mhd mrc mfi mer mfo mfo' mpv u l ex hs :
+  Lemma t_get_input_rest nf scr args Q s mstk mreq mty mln mist mpr mhd mrc mfi mer mfo mfo' mpv mls u l ex hs :
     SP nf ->
     At s {| m_stack := mstk; m_req := (length (st_ih u), (scr, args)) :: mreq; m_typed := mty; m_line := mln;
             m_istack := mist; m_proc := mpr; m_hand := mhd; m_recv := mrc; m_fired := mfi; m_must := None; m_err := mer;
-            m_follow := mfo'; m_prev := Some (T_REQ, [scr; args; length (st_ih u)]) |} u l ex hs ->
+            m_follow := mfo'; m_prev := Some (T_REQ, [scr; args; length (st_ih u)]); m_last := mls |} u l ex hs ->
     Core {| m_stack := mstk; m_req := mreq; m_typed := mty; m_line := mln;
             m_istack := mist; m_proc := mpr; m_hand := mhd; m_recv := mrc; m_fired := mfi; m_must := None; m_err := mer;
-            m_follow := mfo; m_prev := mpv |} u l ex hs ->
+            m_follow := mfo; m_prev := mpv; m_last := mls |} u l ex hs ->
     (mfo' = None \/ exists q, mfo' = Some (FQuitBack q)) ->
     sc_prompt_none (specs scr) = false -> scr < N -> (strict = true -> args = fargs scr) ->
     (forall o s', Inv s' -> Q o s') ->
@@ -1687,7 +1809,7 @@ Section Scr.
   Proof.
     intros HS HAt HC HQf PN SL SA HQ. core_open HC. unfold new_input_handler.
     steps HAt HQf.
-    apply t_handler_get_input; [exact HS| | | | | |exact HQ].
+    apply t_handler_get_input; [exact HS| | |exact HQ].
     - eapply At_Inv; [exact HAt| |quiet_auto HQf].
       core_auto.
       + intros j L1 L2. rewrite nth_upd_nth. destruct ((j =? scr)%nat && (scr <? length (st_scr u))%nat); cbn; auto.
@@ -1704,7 +1826,9 @@ Section Scr.
         destruct (j =? length (st_ih u))%nat eqn:E; [|cbn; discriminate]. cbn. auto.
       + intros j. rewrite nth_snoc. destruct (j <? length (st_ih u))%nat eqn:L; [auto|].
         destruct (j =? length (st_ih u))%nat eqn:E; cbn; discriminate.
-      + intros j M. destruct (c_recv_fresh0 j M) as (A & B & C). rewrite app_length. split; [lia|split; assumption].
+      + intros j. rewrite nth_snoc. destruct (j <? length (st_ih u))%nat eqn:L; [auto|].
+        destruct (j =? length (st_ih u))%nat eqn:E; cbn; discriminate.
+      + intros F. rewrite app_length. apply (FreshInv_len _ _ _ (length (st_ih u))); [lia|auto].
       + rewrite upd_nth_length. exact c_nscr0.
       + intros ST j scr' args'. destruct (j =? length (st_ih u))%nat eqn:E.
         * intros X. inversion X; subst scr' args'. split; [auto|]. rewrite nth_upd_nth. rewrite Nat.eqb_refl.
@@ -1713,14 +1837,9 @@ Section Scr.
           rewrite nth_upd_nth. destruct ((scr' =? scr)%nat && (scr <? length (st_scr u))%nat) eqn:C; [|exact A2].
           apply andb_true_iff in C. destruct C as [C _]. apply Nat.eqb_eq in C. subst scr'. cbn. rewrite A1. apply SA, ST.
       + rewrite c_hs0, app_length. cbn [length]. rewrite Nat.add_1_r. apply htable_add.
-      + intros x I. destruct (c_hand_lt0 x I). rewrite app_length. split; [lia|auto].
-      + intros j I. rewrite app_length. specialize (c_ist_lt0 j I). lia.
-    - rewrite (at_u _ _ _ _ _ _ HAt). cbn. rewrite app_length. cbn. lia.
-    - rewrite (at_u _ _ _ _ _ _ HAt). cbn. intros I. specialize (c_ist_lt0 _ I). lia.
-    - rewrite (at_m _ _ _ _ _ _ HAt). cbn. intros I. apply in_map_iff in I. destruct I as (x & E & I).
-      destruct (c_hand_lt0 x I). lia.
-    - rewrite (at_m _ _ _ _ _ _ HAt). cbn. destruct (existsb (Nat.eqb (length (st_ih u))) mrc) eqn:M; [|reflexivity].
-      destruct (c_recv_fresh0 _ M) as (A & _). lia.
+    - intros F. rewrite (at_u _ _ _ _ _ _ HAt), (at_m _ _ _ _ _ _ HAt). cbn [st_ih st_istack set m_hand m_recv].
+      destruct (FreshInv_new _ _ _ _ (c_fresh0 F)) as (A & B & C). rewrite app_length. cbn [length].
+      split; [lia|]. split; [exact A|]. split; [exact B|exact C].
   Qed.
 
 
@@ -1762,7 +1881,7 @@ Section Scr.
   Proof.
     intros n Q s HS HI HQ. open_inv HI. unfold get_input_blocking, new_input_handler.
     steps HAt HQf.
-    apply t_handler_get_input; [exact HS| | | | | |].
+    apply t_handler_get_input; [exact HS| | |].
     - eapply At_Inv; [exact HAt| |quiet_auto HQf].
       core_auto.
       + intros j. rewrite nth_snoc. destruct (j <? length (st_ih u))%nat eqn:L; [auto|].
@@ -1774,16 +1893,13 @@ Section Scr.
         destruct (j =? length (st_ih u))%nat eqn:E; cbn; discriminate.
       + intros j. rewrite nth_snoc. destruct (j <? length (st_ih u))%nat eqn:L; [auto|].
         destruct (j =? length (st_ih u))%nat eqn:E; cbn; discriminate.
-      + intros j M. destruct (c_recv_fresh0 j M) as (A & B & C). rewrite app_length. split; [lia|split; assumption].
+      + intros j. rewrite nth_snoc. destruct (j <? length (st_ih u))%nat eqn:L; [auto|].
+        destruct (j =? length (st_ih u))%nat eqn:E; cbn; discriminate.
+      + intros F. rewrite app_length. apply (FreshInv_len _ _ _ (length (st_ih u))); [lia|auto].
       + rewrite c_hs0, app_length. cbn [length]. rewrite Nat.add_1_r. apply htable_add.
-      + intros x I. destruct (c_hand_lt0 x I). rewrite app_length. split; [lia|auto].
-      + intros j I. rewrite app_length. specialize (c_ist_lt0 j I). lia.
-    - rewrite (at_u _ _ _ _ _ _ HAt). cbn. rewrite app_length. cbn. lia.
-    - rewrite (at_u _ _ _ _ _ _ HAt). cbn. intros I. specialize (c_ist_lt0 _ I). lia.
-    - rewrite (at_m _ _ _ _ _ _ HAt). cbn. intros I. apply in_map_iff in I. destruct I as (x & E & I).
-      destruct (c_hand_lt0 x I). lia.
-    - rewrite (at_m _ _ _ _ _ _ HAt). cbn. destruct (existsb (Nat.eqb (length (st_ih u))) mrc) eqn:M; [|reflexivity].
-      destruct (c_recv_fresh0 _ M) as (A & _). lia.
+    - intros F. rewrite (at_u _ _ _ _ _ _ HAt), (at_m _ _ _ _ _ _ HAt). cbn [st_ih st_istack set m_hand m_recv].
+      destruct (FreshInv_new _ _ _ _ (c_fresh0 F)) as (A & B & C). rewrite app_length. cbn [length].
+      split; [lia|]. split; [exact A|]. split; [exact B|exact C].
     - set (k0 := length (st_ih u)) in *. clearbody k0.
       intros o s' HI'. destruct o; try (apply HQ; exact HI').
       apply wpS_seq.
@@ -1808,7 +1924,7 @@ Section Scr.
     W nf (modal_body sc a) Q s.
   Proof.
     intros HS HAt HC [HQf HQm] SL SA HQx HQn.
-    destruct m as [mstk mreq mty mln mist mpr mhd mrc mfi mmu mer mfo mpv]. cbn in HQf, HQm. subst mmu.
+    destruct m as [mstk mreq mty mln mist mpr mhd mrc mfi mmu mer mfo mpv mls]. cbn in HQf, HQm. subst mmu.
     core_open HC. unfold modal_body, new_sd, ev_stack.
     steps HAt HQf.
     eapply a_rec; [exact HS|exact HAt| | |split; discriminate|].
@@ -1820,19 +1936,18 @@ Section Scr.
       clear HAt. unfold Keep in KP. cbn [m_follow] in KP.
       destruct (Inv_open _ HI') as (m' & u' & l' & ex' & hs' & HAt' & HC' & HQt').
       rewrite (at_m _ _ _ _ _ _ HAt'), (at_u _ _ _ _ _ _ HAt') in KP.
-      destruct m' as [mstk' mreq' mty' mln' mist' mpr' mhd' mrc' mfi' mmu' mer' mfo' mpv'].
+      destruct m' as [mstk' mreq' mty' mln' mist' mpr' mhd' mrc' mfi' mmu' mer' mfo' mpv' mls'].
       destruct HQt' as [HQf' HQm']. cbn in HQf', HQm', KP. subst mmu'.
       step HAt'; [chk_side HQf'|].
       eapply HQn; [exact HAt'| |reflexivity|].
-      + clear HC c_stack0 c_istack0 c_proc0 c_typed0 c_err0 c_cb_req0 c_cb_no0 c_req_lt0 c_owner0 c_recv0 c_recv_fresh0 c_sep0 c_quit0
-                    c_nscr0 c_stk_wf0 c_args0 c_hs0 c_p_ready0 c_p_nodup0 c_p_recv0 c_e_recv0 c_fl_cnt0 c_fl_proc0
-                    c_hand_nd0 c_hand_lt0 c_ist_nd0 c_ist_lt0. core_open HC'. core_auto.
+      + clear HC c_stack0 c_istack0 c_proc0 c_typed0 c_err0 c_cb_req0 c_cb_no0 c_req_lt0 c_owner0 c_recv0 c_last0 c_fresh0 c_sep0 c_quit0
+                    c_nscr0 c_stk_wf0 c_args0 c_hs0 c_p_ready0 c_p_recv0 c_e_recv0 c_fl_cnt0 c_fl_proc0. core_open HC'. core_auto.
       + cbn [m_follow]. destruct KP as [->|[-> ES]]; [left; reflexivity|].
         destruct HQf as [->|[q ->]]; [left; reflexivity|]. right. split; [eauto|]. split; [reflexivity|].
         cbn in ES. rewrite ES. discriminate.
   Qed.
 
-  Lemma IT_push_modal (sc a : nat) : scmd_wf N strict fargs (SPushModal sc a) = true ->
+  Lemma IT_push_modal (sc a : nat) : scmd_wf N strict fresh fargs (SPushModal sc a) = true ->
     forall cn self cnt, IT (do_scmd specs cn self cnt (SPushModal sc a)).
   Proof.
     intros WF cn self cnt n Q s0 HS HI HQ. open_inv HI.
@@ -1841,7 +1956,7 @@ Section Scr.
     step HAt. step HAt; [chk_side HQf|].
     assert (HAt' : At s {| m_stack := mstk; m_req := mreq; m_typed := mty; m_line := mln; m_istack := mist; m_proc := mpr;
                            m_hand := mhd; m_recv := mrc; m_fired := mfi; m_must := None; m_err := mer; m_follow := None;
-                           m_prev := Some (T_OP, [O_PUSH_MODAL; sc; a]) |} u l ex hs).
+                           m_prev := Some (T_OP, [O_PUSH_MODAL; sc; a]); m_last := mls |} u l ex hs).
     { destruct HQf as [->|[q ->]]; exact HAt. }
     clear HAt.
     eapply t_modal_body; [exact HS|exact HAt'| | |exact WF1|exact WF2| |].
@@ -1850,6 +1965,64 @@ Section Scr.
     - intros o s' _ HI'. apply HQ, HI'.
     - intros s' m' u' l' ex' hs' A1 C1 M1 [F1|[[q F1] _]]; [|discriminate F1].
       apply HQ. eapply At_Inv; [exact A1|exact C1|]. split; [left; exact F1|exact M1].
+  Qed.
+
+  (* ------------------------------------------------------------ the application's own InputHandler objects *)
+  Lemma IT_wr_typeahead b : IT (wr (fun u => u <| st_typeahead := b |>)).
+  Proof. intros n Q s HS HI HQ. open_inv HI. step HAt. apply HQ. eapply At_Inv; [exact HAt|core_auto|quiet_auto HQf]. Qed.
+
+  Lemma IT_handler_ask self h skip : fresh = false -> IT (handler_ask self h skip).
+  Proof.
+    intros NF n Q s HS HI HQ. open_inv HI. unfold handler_ask, new_input_handler.
+    step HAt. destruct (hlookup h (st_hobj u)) as [k|].
+    - apply t_handler_get_input; [exact HS|exact HI| |exact HQ]. intros F. congruence.
+    - steps HAt HQf.
+      apply t_handler_get_input; [exact HS| | |exact HQ]; [|intros F; congruence].
+      eapply At_Inv; [exact HAt| |quiet_auto HQf].
+      core_auto.
+      + intros j. rewrite nth_snoc. destruct (j <? length (st_ih u))%nat eqn:L; [auto|].
+        destruct (j =? length (st_ih u))%nat eqn:E; cbn; discriminate.
+      + intros j. rewrite nth_snoc. destruct (j <? length (st_ih u))%nat eqn:L; [auto|].
+        apply Nat.ltb_ge in L. intros _. left. apply c_req_lt0. exact L.
+      + intros j. rewrite app_length. cbn [length]. intros L. apply c_req_lt0. lia.
+      + intros j. rewrite nth_snoc. destruct (j <? length (st_ih u))%nat eqn:L; [auto|].
+        destruct (j =? length (st_ih u))%nat eqn:E; cbn; discriminate.
+      + intros j. rewrite nth_snoc. destruct (j <? length (st_ih u))%nat eqn:L; [auto|].
+        destruct (j =? length (st_ih u))%nat eqn:E; cbn; discriminate.
+      + intros j. rewrite nth_snoc. destruct (j <? length (st_ih u))%nat eqn:L; [auto|].
+        destruct (j =? length (st_ih u))%nat eqn:E; cbn; discriminate.
+      + intros F. congruence.
+      + rewrite c_hs0, app_length. cbn [length]. rewrite Nat.add_1_r. apply htable_add.
+  Qed.
+
+  (* what the application sees after wait_on_input(): the flags / the value of the last ready signal of the handler *)
+  Lemma t_waited h k n Q s : Inv s -> ih_received (ih_of (ust s) k) = true ->
+    (forall o s', Inv s' -> Q o s') ->
+    W n (rd (fun u => evt T_WAITED [h; k; b2n (ih_success (ih_of u k));
+                                      b2n (match ih_value (ih_of u k) with Some _ => true | None => false end)]
+                          (match ih_value (ih_of u k) with Some v => v | None => [] end))) Q s.
+  Proof.
+    intros HI C HQ. open_inv HI. rewrite (at_u _ _ _ _ _ _ HAt) in C. unfold ih_of in C.
+    destruct (c_last0 _ C) as (v & LA & LV).
+    step HAt. unfold ih_of. step HAt.
+    { unfold mchk, mchk_all, mchk17, mchk18, mchk06, mchk_once.
+      cbn [m_must m_last T_INPUT T_READY T_SHOW T_SEPARATOR T_REFUSED T_PROMPT T_GOT T_WAITED Nat.eqb andb orb nth0 nth].
+      rewrite LA. rewrite b2n_eqb, eqb_reflx. cbn [andb].
+      destruct (ih_success _) eqn:SU.
+      - rewrite (LV eq_refl). cbn [negb orb b2n Nat.eqb andb]. rewrite streq_refl. destruct HQf as [->|[? ->]]; reflexivity.
+      - cbn [negb orb andb]. destruct HQf as [->|[? ->]]; reflexivity. }
+    apply HQ. eapply At_Inv; [exact HAt|core_auto|quiet_auto HQf].
+  Qed.
+
+  Lemma IT_handler_wait h : IT (handler_wait h).
+  Proof.
+    intros n Q s HS HI HQ. open_inv HI. unfold handler_wait.
+    step HAt. destruct (hlookup h (st_hobj u)) as [k|]; [|apply IT_ret; assumption].
+    apply wpS_seq.
+    apply (wpS_while _ _ _ n _ _ _ Inv); [exact HI|intros sa H1; apply H1| |].
+    - intros sa HI1 C. apply negb_false_iff in C. apply t_waited; [exact HI1|exact C|exact HQ].
+    - intros sa HI1 C. apply IT_rec; [exact I|exact HS|exact HI1|].
+      intros o sb HI2. destruct o; try (apply HQ; exact HI2). exact HI2.
   Qed.
 
   Lemma IT_force_quit : IT (PApi AForceQuit).
@@ -1865,10 +2038,10 @@ Section Scr.
       rewrite nth_upd_nth. destruct ((scr' =? scr)%nat && (scr <? length (st_scr u))%nat); [rewrite F2|]; auto.
   Qed.
 
-  Lemma forallb_Forall_wf l : forallb (scmd_wf N strict fargs) l = true -> Forall (fun c => scmd_wf N strict fargs c = true) l.
+  Lemma forallb_Forall_wf l : forallb (scmd_wf N strict fresh fargs) l = true -> Forall (fun c => scmd_wf N strict fresh fargs c = true) l.
   Proof. intros H. apply Forall_forall. intros x I. rewrite forallb_forall in H. auto. Qed.
 
-  Lemma IT_do_scmd cn : IT cn -> forall c, scmd_wf N strict fargs c = true -> forall self cnt, IT (do_scmd specs cn self cnt c).
+  Lemma IT_do_scmd cn : IT cn -> forall c, scmd_wf N strict fresh fargs c = true -> forall self cnt, IT (do_scmd specs cn self cnt c).
   Proof.
     intros Hcn c. induction c using scmd_ind'.
     - intros WF self cnt. destruct c; try contradiction.
@@ -1882,31 +2055,34 @@ Section Scr.
       + apply IT_enq_other; discriminate.
       + apply IT_enq_other; discriminate.
       + apply IT_get_input_blocking.
+      + apply IT_wr_typeahead.
+      + apply IT_handler_ask. cbn [scmd_wf] in WF. destruct fresh; [discriminate WF|reflexivity].
+      + apply IT_handler_wait.
       + apply IT_wr_scr; reflexivity.
       + apply IT_wr_scr; reflexivity.
       + apply IT_ev_plain. reflexivity.
     - intros WF self cnt. cbn [scmd_wf] in WF. apply andb_true_iff in WF. destruct WF as [W1 W2].
       apply forallb_Forall_wf in W1. apply forallb_Forall_wf in W2.
       cbn [do_scmd].
-      assert (SEQ : forall l, Forall (fun c => scmd_wf N strict fargs c = true -> forall self cnt, IT (do_scmd specs cn self cnt c)) l ->
-                    Forall (fun c => scmd_wf N strict fargs c = true) l ->
+      assert (SEQ : forall l, Forall (fun c => scmd_wf N strict fresh fargs c = true -> forall self cnt, IT (do_scmd specs cn self cnt c)) l ->
+                    Forall (fun c => scmd_wf N strict fresh fargs c = true) l ->
                     IT ((fix seq (l : list scmd) : sprog := match l with [] => PRet | x :: r => do_scmd specs cn self cnt x ;; seq r end) l)).
       { induction l as [|x r IHr]; intros F1 F2; [apply IT_ret|]. inversion F1; subst. inversion F2; subst.
         apply IT_seq; [auto|apply IHr; assumption]. }
       destruct (cnt <? k)%nat; apply SEQ; assumption.
   Qed.
 
-  Lemma IT_do_scmds cn : IT cn -> forall l, cmds_wf N strict fargs l = true -> forall self cnt, IT (do_scmds specs cn self cnt l).
+  Lemma IT_do_scmds cn : IT cn -> forall l, cmds_wf N strict fresh fargs l = true -> forall self cnt, IT (do_scmds specs cn self cnt l).
   Proof.
     intros Hcn l. induction l as [|x r IH]; intros WF self cnt; cbn [do_scmds]; [apply IT_ret|].
     unfold cmds_wf in WF. cbn [forallb] in WF. apply andb_true_iff in WF. destruct WF as [W1 W2].
     apply IT_seq; [apply IT_do_scmd; assumption|apply IH, W2].
   Qed.
 
-  Lemma wf_parts scr : cmds_wf N strict fargs (sc_refresh (specs scr)) = true /\ cmds_wf N strict fargs (sc_show (specs scr)) = true /\
-    cmds_wf N strict fargs (sc_closed (specs scr)) = true /\
-    (forall x, In x (sc_input (specs scr)) -> cmds_wf N strict fargs (fst (snd x)) = true) /\
-    cmds_wf N strict fargs (fst (sc_input_default (specs scr))) = true.
+  Lemma wf_parts scr : cmds_wf N strict fresh fargs (sc_refresh (specs scr)) = true /\ cmds_wf N strict fresh fargs (sc_show (specs scr)) = true /\
+    cmds_wf N strict fresh fargs (sc_closed (specs scr)) = true /\
+    (forall x, In x (sc_input (specs scr)) -> cmds_wf N strict fresh fargs (fst (snd x)) = true) /\
+    cmds_wf N strict fresh fargs (fst (sc_input_default (specs scr))) = true.
   Proof.
     pose proof (Hwf scr) as H. unfold spec_wf in H.
     apply andb_true_iff in H. destruct H as [H H5]. apply andb_true_iff in H. destruct H as [H H4].
@@ -1971,7 +2147,7 @@ Section Scr.
     apply IT_seq; [apply IT_ev_plain; reflexivity|apply IT_close_body].
   Qed.
 
-  Lemma IT_run_cmds self cnt l : cmds_wf N strict fargs l = true -> IT (run_cmds specs self cnt l).
+  Lemma IT_run_cmds self cnt l : cmds_wf N strict fresh fargs l = true -> IT (run_cmds specs self cnt l).
   Proof. intros WF. unfold run_cmds. apply IT_do_scmds; [apply IT_close_screen|exact WF]. Qed.
 
   Lemma IT_reg_source o : IT (PApi (ARegSource o)).
@@ -2074,7 +2250,7 @@ Section Scr.
   (* ------------------------------------------------------------ the hand-off *)
   Lemma quiet_enq m sp : Quiet m -> m_enq m sp = m /\ c_enq m sp = true.
   Proof.
-    intros [HQf HQm]. destruct m as [mstk mreq mty mln mist mpr mhd mrc mfi mmu mer mfo mpv]. cbn in HQf, HQm. subst mmu.
+    intros [HQf HQm]. destruct m as [mstk mreq mty mln mist mpr mhd mrc mfi mmu mer mfo mpv mls]. cbn in HQf, HQm. subst mmu.
     destruct HQf as [->|[q ->]]; split; reflexivity.
   Qed.
 
@@ -2122,17 +2298,17 @@ Section Scr.
     m_hand (MWs s3) = m_hand (MWs s) /\ m_line (MWs s3) = m_line (MWs s).
   Proof.
     intros (m & u & l & ex & hs & HAt & HC & HM & H7). cbn zeta.
-    destruct m as [mstk mreq mty mln mist mpr mhd mrc mfi mmu mer mfo mpv]. cbn in HM. subst mmu.
+    destruct m as [mstk mreq mty mln mist mpr mhd mrc mfi mmu mer mfo mpv mls]. cbn in HM. subst mmu.
     assert (C : mchk {| m_stack := mstk; m_req := mreq; m_typed := mty; m_line := mln; m_istack := mist; m_proc := mpr;
                         m_hand := mhd; m_recv := mrc; m_fired := mfi; m_must := None; m_err := mer; m_follow := mfo;
-                        m_prev := mpv |} (EHandlerEnd hid sid (how_of o)) = true).
+                        m_prev := mpv; m_last := mls |} (EHandlerEnd hid sid (how_of o)) = true).
     { unfold mchk, mchk_all.
       change (mchk07 quit {| m_stack := mstk; m_req := mreq; m_typed := mty; m_line := mln; m_istack := mist; m_proc := mpr;
                         m_hand := mhd; m_recv := mrc; m_fired := mfi; m_must := None; m_err := mer; m_follow := mfo;
-                        m_prev := mpv |} (EHandlerEnd hid sid (how_of o)))
+                        m_prev := mpv; m_last := mls |} (EHandlerEnd hid sid (how_of o)))
         with (mchk07 quit {| m_stack := mstk; m_req := mreq; m_typed := mty; m_line := mln; m_istack := mist; m_proc := mpr;
                         m_hand := mhd; m_recv := mrc; m_fired := mfi; m_must := None; m_err := mer; m_follow := mfo;
-                        m_prev := mpv |} (EHandlerEnd 0 0 (how_of o))).
+                        m_prev := mpv; m_last := mls |} (EHandlerEnd 0 0 (how_of o))).
       rewrite H7. reflexivity. }
     pose proof (At_emit _ _ _ _ _ _ _ HAt C) as H'. mnorm H'.
     rewrite !MW_emit, (at_m _ _ _ _ _ _ HAt). cbn [mstep m_follow m_hand m_line set].
@@ -2149,7 +2325,7 @@ Section Scr.
     intros HI NE. open_inv HI.
     assert (C : mchk {| m_stack := mstk; m_req := mreq; m_typed := mty; m_line := mln; m_istack := mist; m_proc := mpr;
                         m_hand := mhd; m_recv := mrc; m_fired := mfi; m_must := None; m_err := mer; m_follow := mfo;
-                        m_prev := mpv |} (EHandler hid sid data) = true) by (destruct HQf as [->|[q ->]]; reflexivity).
+                        m_prev := mpv; m_last := mls |} (EHandler hid sid data) = true) by (destruct HQf as [->|[q ->]]; reflexivity).
     pose proof (At_emit _ _ _ _ _ _ _ HAt C) as H'.
     eapply At_Inv; [exact H'| |].
     - cbn [mstep]. apply Nat.eqb_neq in NE. rewrite NE. exact HC.
@@ -2177,12 +2353,12 @@ Section Scr.
     intros HS HI [_ SPR] CL. destruct (SPR CL eq_refl) as (SD & NF & NE). clear SPR.
     destruct (Inv_open_eq _ HI) as (m & u & hs & HAt & HC & HQt).
     set (l := pendl s) in *. set (ex := ext s) in *. rewrite (at_m _ _ _ _ _ _ HAt) in SD. clearbody l ex. subst ex.
-    destruct m as [mstk mreq mty mln mist mpr mhd mrc mfi mmu mer mfo mpv].
+    destruct m as [mstk mreq mty mln mist mpr mhd mrc mfi mmu mer mfo mpv mls].
     destruct HQt as [HQf HQm]. cbn in HQf, HQm, SD. subst mmu.
     core_open HC.
     assert (C : mchk {| m_stack := mstk; m_req := mreq; m_typed := mty; m_line := mln; m_istack := mist; m_proc := mpr;
                         m_hand := mhd; m_recv := mrc; m_fired := mfi; m_must := None; m_err := mer; m_follow := mfo;
-                        m_prev := mpv |} (EHandler H_RECEIVED (sg_id sg) data) = true) by (destruct HQf as [->|[q ->]]; reflexivity).
+                        m_prev := mpv; m_last := mls |} (EHandler H_RECEIVED (sg_id sg) data) = true) by (destruct HQf as [->|[q ->]]; reflexivity).
     pose proof (At_emit _ _ _ _ _ _ _ HAt C) as H1. clear HAt C.
     unfold input_received_handler. eapply a_rd; [exact H1|].
     destruct (st_istack u) as [|top rest] eqn:EI.
@@ -2198,7 +2374,7 @@ Section Scr.
     - subst mist. cbn [mstep H_RECEIVED Nat.eqb m_istack] in H1. mnorm H1.
       assert (QT : Quiet {| m_stack := mstk; m_req := mreq; m_typed := mty; m_line := mln; m_istack := []; m_proc := false;
                             m_hand := mhd ++ (top, true, mln) :: map (fun r : nat => (r, false, [])) (rev rest);
-                            m_recv := mrc; m_fired := mfi; m_must := None; m_err := mer; m_follow := mfo; m_prev := mpv |})
+                            m_recv := mrc; m_fired := mfi; m_must := None; m_err := mer; m_follow := mfo; m_prev := mpv; m_last := mls |})
         by (split; [exact HQf|reflexivity]).
       apply wpS_seq. step H1. apply wpS_seq. eapply t_emit_ready; [exact H1|exact QT|]. intros s2 id1 H2. cbv beta iota.
       apply wpS_seq. eapply t_emit_failed_all; [exact H2|exact QT|]. intros s3 news H3 EN FN. cbv beta iota.
@@ -2206,55 +2382,24 @@ Section Scr.
       lazymatch goal with |- HPost _ _ _ _ _ ?sx => assert (EO : EndOK ONormal sx) end.
       { eexists _, _, _, _, _. split; [exact H3|]. split; [|split; [reflexivity|unfold mchk07; cbn [m_follow]; destruct HQf as [->|[q ->]]; reflexivity]].
         rewrite map_rev, rev_involutive in EN.
-        assert (IDS : map sg_a news = rest).
-        { transitivity (map hid_of (map triple news)); [rewrite map_map; reflexivity|]. rewrite EN, map_map. cbn. apply map_id. }
-        assert (TNI : ~ In top rest) by (inversion c_ist_nd0; assumption).
-        assert (RND : NoDup rest) by (inversion c_ist_nd0; assumption).
-        assert (OLD : forall x, In x (map sg_a (filter isready l)) -> In x (map hid_of mhd)).
-        { intros x I. apply in_map_iff in I. destruct I as (sg' & E & I). apply filter_In in I. destruct I as [I R].
-          unfold isready in R. apply Nat.eqb_eq in R. apply in_map_iff. exists (triple sg'). split; [exact E|auto]. }
-        assert (DISJ : forall x, In x (top :: rest) -> ~ In x (map hid_of mhd)).
-        { intros x I J. apply in_map_iff in J. destruct J as (y & E & J). destruct (c_hand_lt0 y J) as [_ K]. apply K. rewrite E. exact I. }
+        assert (Z : filter isrecv news = []).
+        { clear - FN. induction FN as [|a r Ha Hr IH]; [reflexivity|]. cbn. unfold isrecv at 1. rewrite Ha. cbn. exact IH. }
         core_auto.
-        - intros j M. destruct (c_recv_fresh0 j M) as (A & B & C). split; [exact A|]. split; [intros []|].
-          rewrite map_app. cbn [map hid_of fst]. rewrite map_map. cbn [hid_of fst]. rewrite map_id.
-          intros I. apply in_app_or in I. destruct I as [I|[<-|I]]; [auto|apply B; left; reflexivity|].
-          rewrite <- in_rev in I. apply B. right. exact I.
-        - intros sg' I CR. apply in_app_or in I. destruct I as [I|[<-|I]].
-          + apply in_or_app. right. right. rewrite map_rev, <- in_rev.
-            assert (X : In (triple sg') (map triple news)) by (apply in_map, I). rewrite EN in X. exact X.
-          + apply in_or_app. right. left. unfold triple. cbn. rewrite SD. reflexivity.
-          + apply in_or_app. left. auto.
+        - intros F. apply FreshInv_handoff. apply c_fresh0, F.
         - rewrite filter_app. cbn [filter]. unfold isready at 2. cbn [sg_cls mk_signal ready_spec sp_cls]. rewrite Nat.eqb_refl.
           rewrite (filter_all isready news) by (eapply Forall_impl; [|exact FN]; intros a Ha; unfold isready; rewrite Ha; reflexivity).
-          rewrite map_app. cbn [map sg_a mk_signal ready_spec sp_a]. rewrite IDS.
-          apply nodup_app; [exact RND| |].
-          + constructor; [|exact c_p_nodup0]. intros I. apply (DISJ top); [left; reflexivity|apply OLD, I].
-          + intros x I [<-|J]; [contradiction|]. apply (DISJ x); [right; exact I|apply OLD, J].
+          rewrite map_app. cbn [map]. rewrite EN.
+          replace (triple (mk_signal id1 (ready_spec (ih_src (nth top (st_ih u) {| ih_src := None; ih_owner := 0; ih_cb := false; ih_received := false; ih_success := false; ih_value := None |})) top (sg_data sg) true)))
+            with (top, true, mln) by (unfold triple; cbn; rewrite SD; reflexivity).
+          apply PSub_handoff; [exact c_p_ready0|]. apply Permutation_map, Permutation_sym, Permutation_rev.
         - intros sg' I CR. apply in_app_or in I. destruct I as [I|[<-|I]].
           + rewrite Forall_forall in FN. rewrite (FN _ I) in CR. discriminate CR.
           + discriminate CR.
           + auto.
         - rewrite filter_app. cbn [filter]. unfold isrecv at 2. cbn [sg_cls mk_signal ready_spec sp_cls Nat.eqb CLS_READY CLS_RECEIVED].
-          rewrite app_length, NF. cbn [length].
-          assert (Z : filter isrecv news = []).
-          { clear - FN. induction FN as [|a r Ha Hr IH]; [reflexivity|]. cbn. unfold isrecv at 1. rewrite Ha. cbn. exact IH. }
-          rewrite Z. cbn. lia.
+          rewrite app_length, NF, Z. cbn. lia.
         - rewrite filter_app. cbn [filter]. unfold isrecv at 2. cbn [sg_cls mk_signal ready_spec sp_cls Nat.eqb CLS_READY CLS_RECEIVED].
-          rewrite app_length, NF.
-          assert (Z : filter isrecv news = []).
-          { clear - FN. induction FN as [|a r Ha Hr IH]; [reflexivity|]. cbn. unfold isrecv at 1. rewrite Ha. cbn. exact IH. }
-          rewrite Z. cbn. lia.
-        - rewrite map_app. cbn [map hid_of fst]. rewrite map_map. cbn [hid_of fst]. rewrite map_id.
-          apply nodup_app; [exact c_hand_nd0| |].
-          + constructor; [rewrite <- in_rev; exact TNI|]. apply NoDup_rev. exact RND.
-          + intros x I [<-|J]; [apply (DISJ top); [left; reflexivity|exact I]|]. rewrite <- in_rev in J. apply (DISJ x); [right; exact J|exact I].
-        - intros x I. split; [|auto]. apply in_app_or in I. destruct I as [I|[<-|I]].
-          + apply c_hand_lt0, I.
-          + apply c_ist_lt0. left. reflexivity.
-          + apply in_map_iff in I. destruct I as (r & <- & I). rewrite <- in_rev in I. apply c_ist_lt0. right. exact I.
-        - constructor.
-        - intros ? []. }
+          rewrite app_length, NF, Z. cbn. lia. }
       unfold HPost. cbn zeta.
       destruct (EndOK_end _ _ H_RECEIVED (sg_id sg) EO) as (I3 & F3 & _).
       split; [exact I3|]. split; [left; exact F3|]. split; intros X; [rewrite CL in X; discriminate X|]. intros Y; discriminate Y.
@@ -2271,14 +2416,14 @@ Section Scr.
     mchk07 quit m (EHandlerEnd 0 0 (how_of o)) = true -> EndOK o s.
   Proof. intros. exists m, u, l, ex, hs. auto. Qed.
 
-  Lemma t_pir nf act sr Q s mstk mreq mty mln mist mpr mhd mrc mfi mer mpv u l ex hs :
+  Lemma t_pir nf act sr Q s mstk mreq mty mln mist mpr mhd mrc mfi mer mpv mls u l ex hs :
     SP nf ->
     At s {| m_stack := mstk; m_req := mreq; m_typed := mty; m_line := mln; m_istack := mist; m_proc := mpr;
             m_hand := mhd; m_recv := mrc; m_fired := mfi; m_must := None; m_err := mer;
-            m_follow := Some (follow_of act sr); m_prev := mpv |} u l ex hs ->
+            m_follow := Some (follow_of act sr); m_prev := mpv; m_last := mls |} u l ex hs ->
     Core {| m_stack := mstk; m_req := mreq; m_typed := mty; m_line := mln; m_istack := mist; m_proc := mpr;
             m_hand := mhd; m_recv := mrc; m_fired := mfi; m_must := None; m_err := mer;
-            m_follow := Some (follow_of act sr); m_prev := mpv |} u l ex hs ->
+            m_follow := Some (follow_of act sr); m_prev := mpv; m_last := mls |} u l ex hs ->
     (forall o s', EndOK o s' -> Q o s') -> W nf (process_input_result specs act sr) Q s.
   Proof.
     intros HS HAt HC HQ. core_open HC. unfold process_input_result, with_top.
@@ -2314,7 +2459,7 @@ Section Scr.
           -- intros o s' NO HI'. destruct o; [contradiction|..]; apply HQi, HI'.
           -- intros s' m' u' l' ex' hs' A1 C1 M1 F1. cbv beta iota.
              eapply a_rd; [exact A1|].
-             destruct m' as [mstk' mreq' mty' mln' mist' mpr' mhd' mrc' mfi' mmu' mer' mfo' mpv']. cbn in M1, F1. subst mmu'.
+             destruct m' as [mstk' mreq' mty' mln' mist' mpr' mhd' mrc' mfi' mmu' mer' mfo' mpv' mls']. cbn in M1, F1. subst mmu'.
              assert (NE : mfo' = None \/ (mfo' = Some FAfterQuit /\ mstk' <> [])).
              { destruct F1 as [->|(_ & -> & NE)]; [left; reflexivity|right; split; [reflexivity|]].
                pose proof (c_stack _ _ _ _ _ C1) as X. cbn in X. rewrite X. destruct (st_stack u'); [contradiction|discriminate]. }
@@ -2326,11 +2471,10 @@ Section Scr.
              destruct (ss_answer _); [exact XE|exact XE|].
              assert (C1' : forall fo sg', Core {| m_stack := mstk'; m_req := mreq'; m_typed := mty'; m_line := mln'; m_istack := mist';
                        m_proc := mpr'; m_hand := mhd'; m_recv := mrc'; m_fired := mfi'; m_must := None; m_err := mer';
-                       m_follow := fo; m_prev := mpv' |} u' (mk_signal sg' (render_spec None) :: l') ex' hs').
+                       m_follow := fo; m_prev := mpv'; m_last := mls' |} u' (mk_signal sg' (render_spec None) :: l') ex' hs').
              { intros fo sg'. apply Core_cons_other; [discriminate|discriminate|].
-               clear HC c_stack0 c_istack0 c_proc0 c_typed0 c_err0 c_cb_req0 c_cb_no0 c_req_lt0 c_owner0 c_recv0 c_recv_fresh0 c_sep0 c_quit0
-                    c_nscr0 c_stk_wf0 c_args0 c_hs0 c_p_ready0 c_p_nodup0 c_p_recv0 c_e_recv0 c_fl_cnt0 c_fl_proc0
-                    c_hand_nd0 c_hand_lt0 c_ist_nd0 c_ist_lt0. core_open C1. core_auto. }
+               clear HC c_stack0 c_istack0 c_proc0 c_typed0 c_err0 c_cb_req0 c_cb_no0 c_req_lt0 c_owner0 c_recv0 c_last0 c_fresh0 c_sep0 c_quit0
+                    c_nscr0 c_stk_wf0 c_args0 c_hs0 c_p_ready0 c_p_recv0 c_e_recv0 c_fl_cnt0 c_fl_proc0. core_open C1. core_auto. }
              unfold sched_redraw. destruct NE as [->|[-> NE]].
              ++ eapply a_enq; [exact A1|reflexivity|]. intros s2 id H2. mnorm H2.
                 apply HQ. eapply EndOK_of; [exact H2|apply C1'|reflexivity|reflexivity].
@@ -2395,14 +2539,14 @@ Section Scr.
   Qed.
 
   (* InputManager.process_input, entered right after the ready signal announced the line *)
-  Lemma t_process_input nf scr line args Q s mstk mreq mty mln mist mpr mhd mrc mfi mer mfo mpv u l ex hs :
+  Lemma t_process_input nf scr line args Q s mstk mreq mty mln mist mpr mhd mrc mfi mer mfo mpv mls u l ex hs :
     SP nf ->
     At s {| m_stack := mstk; m_req := mreq; m_typed := mty; m_line := mln; m_istack := mist; m_proc := mpr;
             m_hand := mhd; m_recv := mrc; m_fired := mfi; m_must := Some (scr, args, line); m_err := mer;
-            m_follow := mfo; m_prev := mpv |} u l ex hs ->
+            m_follow := mfo; m_prev := mpv; m_last := mls |} u l ex hs ->
     Core {| m_stack := mstk; m_req := mreq; m_typed := mty; m_line := mln; m_istack := mist; m_proc := mpr;
             m_hand := mhd; m_recv := mrc; m_fired := mfi; m_must := None; m_err := mer;
-            m_follow := mfo; m_prev := mpv |} u l ex hs ->
+            m_follow := mfo; m_prev := mpv; m_last := mls |} u l ex hs ->
     (mfo = None \/ exists q, mfo = Some (FQuitBack q)) ->
     scr < N -> sc_prompt_none (specs scr) = false -> (strict = true -> ss_input_args (scr_of u scr) = args) ->
     (forall o s', EndOK o s' -> Q o s') -> W nf (process_input specs scr line) Q s.
@@ -2427,7 +2571,7 @@ Section Scr.
         [exact HS|exact HI'|exact K3]. }
     apply wpS_seq. step HAt. apply wpS_seq. apply wpS_try. apply wpS_seq.
     unfold call_input. eapply a_rd; [exact HAt|]. cbv zeta.
-    assert (WF : cmds_wf N strict fargs
+    assert (WF : cmds_wf N strict fresh fargs
                   (fst (match assoc_str line (sc_input (specs scr)) with
                         | Some (c, r) => (c, r)
                         | None => (fst (sc_input_default (specs scr)),
@@ -2467,27 +2611,89 @@ Section Scr.
     cbn [fst snd nth0 nth]. rewrite Nat.eqb_refl, b2n_eqb, eqb_reflx, streq_refl. reflexivity.
   Qed.
 
-  Definition ready_base (m : mw) (idx : nat) (tag_a : list nat) : mw :=
-    m <| m_prev := Some (T_READY, tag_a) |> <| m_recv := idx :: m_recv m |>
-      <| m_hand := remove_first (fun x => (fst (fst x) =? idx)%nat) (m_hand m) |>.
+  Lemma mem_cons j k l : mem j (k :: l) = (j =? k)%nat || mem j l.
+  Proof. reflexivity. Qed.
+
+  Definition rmatch (a : nat) (b : bool) (d : str) (x : nat * bool * str) : bool :=
+    (fst (fst x) =? a)%nat && Bool.eqb (snd (fst x)) b && streq (snd x) d.
+
+  Lemma streq_eq (a : str) : forall b, streq a b = true -> a = b.
+  Proof.
+    unfold streq. induction a as [|x r IH]; intros [|y s] H; cbn in H; try discriminate; [reflexivity|].
+    apply andb_true_iff in H. destruct H as [L H]. apply andb_true_iff in H. destruct H as [E H].
+    apply N.eqb_eq in E. subst y. f_equal. apply IH. rewrite L. exact H.
+  Qed.
+  Lemma rmatch_spec a b d x : rmatch a b d x = true <-> x = (a, b, d).
+  Proof.
+    unfold rmatch. destruct x as [[a' b'] d']. cbn [fst snd]. split.
+    - intros H. apply andb_true_iff in H. destruct H as [H H3]. apply andb_true_iff in H. destruct H as [H1 H2].
+      apply Nat.eqb_eq in H1. apply eqb_prop in H2. apply streq_eq in H3. congruence.
+    - intros E. inversion E; subst. rewrite Nat.eqb_refl, eqb_reflx, streq_refl. reflexivity.
+  Qed.
+
+  Lemma remove_first_perm {A} (p : A -> bool) (x : A) l : In x l -> p x = true -> (forall y, p y = true -> y = x) ->
+    Permutation l (x :: remove_first p l).
+  Proof.
+    induction l as [|y r IH]; intros I P U; [destruct I|]. cbn [remove_first]. destruct (p y) eqn:E.
+    - rewrite (U y E). apply Permutation_refl.
+    - destruct I as [->|I]; [congruence|]. eapply perm_trans; [apply perm_skip, (IH I P U)|]. apply perm_swap.
+  Qed.
+
+  Lemma PSub_remove_match (hand rest : list (nat * bool * str)) a b d :
+    PSub ((a, b, d) :: rest) hand -> PSub rest (remove_first (rmatch a b d) hand).
+  Proof.
+    intros S. assert (I : In (a, b, d) hand) by (eapply PSub_in; [exact S|left; reflexivity]).
+    pose proof (remove_first_perm (rmatch a b d) (a, b, d) hand I (proj2 (rmatch_spec a b d _) eq_refl)
+                  (fun y H => proj1 (rmatch_spec a b d y) H)) as P.
+    destruct S as [r Pr]. exists r. apply (Permutation_cons_inv (a := (a, b, d))).
+    eapply perm_trans; [apply Permutation_sym, P|exact Pr].
+  Qed.
+
+  Lemma FreshInv_ready r h i len a b d : FreshInv r h i len -> In (a, b, d) h ->
+    FreshInv (a :: r) (remove_first (rmatch a b d) h) i len /\ mem a r = false.
+  Proof.
+    intros [A B C D E] I.
+    pose proof (remove_first_perm (rmatch a b d) (a, b, d) h I (proj2 (rmatch_spec a b d _) eq_refl)
+                  (fun y H => proj1 (rmatch_spec a b d y) H)) as P.
+    assert (ND : NoDup (a :: map hid_of (remove_first (rmatch a b d) h))).
+    { apply (Permutation_NoDup (l := map hid_of h)); [|exact B]. apply (Permutation_map hid_of P). }
+    assert (SUB : forall x, In x (remove_first (rmatch a b d) h) -> In x h) by (intros x; apply remove_first_sub).
+    destruct (C _ I) as [AL AI]. cbn [hid_of fst] in AL, AI.
+    split.
+    - constructor.
+      + intros n M. rewrite mem_cons in M. apply orb_true_iff in M. destruct M as [M|M].
+        * apply Nat.eqb_eq in M. subst n. split; [exact AL|]. split; [exact AI|]. inversion ND; assumption.
+        * destruct (A n M) as (X & Y & Z). split; [exact X|]. split; [exact Y|].
+          intros J. apply Z. apply in_map_iff in J. destruct J as (x & Ex & J). apply in_map_iff. exists x. split; [exact Ex|auto].
+      + inversion ND; assumption.
+      + intros x J. apply C, SUB, J.
+      + exact D.
+      + exact E.
+    - destruct (mem a r) eqn:M; [|reflexivity]. destruct (A a M) as (_ & _ & Z). exfalso. apply Z.
+      apply in_map_iff. exists (a, b, d). split; [reflexivity|exact I].
+  Qed.
+
+  Definition ready_base (m : mw) (idx : nat) (b : bool) (text : str) : mw :=
+    m <| m_prev := Some (T_READY, [idx; b2n b]) |> <| m_recv := idx :: m_recv m |>
+      <| m_last := (idx, Some (b, text)) :: m_last m |>
+      <| m_hand := remove_first (rmatch idx b text) (m_hand m) |>.
 
   Lemma muser_ready_fire m idx text scr args :
     alookup idx (m_req m) = Some (scr, args) -> mem idx (m_fired m) = false ->
     muser m T_READY [idx; b2n true] text =
-    ready_base m idx [idx; b2n true] <| m_must := Some (scr, args, text) |> <| m_fired := idx :: m_fired m |>.
-  Proof. intros E1 E2. unfold muser, ready_base. cbn. unfold mem in E2. rewrite E1, E2. reflexivity. Qed.
+    ready_base m idx true text <| m_must := Some (scr, args, text) |> <| m_fired := idx :: m_fired m |>.
+  Proof. intros E1 E2. unfold muser, ready_base, rmatch. cbn. unfold mem in E2. rewrite E1, E2. reflexivity. Qed.
 
   Lemma muser_ready_nofire m idx b text :
     (b = false \/ alookup idx (m_req m) = None \/ mem idx (m_fired m) = true) ->
-    muser m T_READY [idx; b2n b] text = ready_base m idx [idx; b2n b].
+    muser m T_READY [idx; b2n b] text = ready_base m idx b text.
   Proof.
-    intros H. unfold muser, ready_base. cbn. destruct H as [->|[E|E]]; [reflexivity| |].
-    - rewrite E. destruct ((b2n b =? 1)%nat && negb (existsb (Nat.eqb idx) (m_fired m))); reflexivity.
+    intros H. destruct m as [mstk mreq mty mln mist mpr mhd mrc mfi mmu mer mfo mpv mls]. cbn [m_req m_fired] in H.
+    unfold muser, ready_base, rmatch. cbn [nth0 nth T_READY T_OP T_STACK T_MODAL_RETURN T_REQ T_PROMPT Nat.eqb].
+    rewrite b2n_eqb. cbn. destruct H as [->|[E|E]]; [reflexivity| |].
+    - rewrite E. destruct (b && negb (existsb (Nat.eqb idx) mfi)); reflexivity.
     - unfold mem in E. rewrite E. rewrite andb_false_r. reflexivity.
   Qed.
-
-  Lemma mem_cons j k l : mem j (k :: l) = (j =? k)%nat || mem j l.
-  Proof. reflexivity. Qed.
 
   Lemma upd_ih_comp k f g u : upd_ih k g (upd_ih k f u) = upd_ih k (fun x => g (f x)) u.
   Proof. unfold upd_ih. cbn [st_ih set]. rewrite upd_nth_comp. reflexivity. Qed.
@@ -2498,33 +2704,25 @@ Section Scr.
     destruct ((j =? idx)%nat && (idx <? length (st_ih u))%nat) eqn:C;
     [apply andb_true_iff in C; destruct C as [C _]; apply Nat.eqb_eq in C; subst j|].
 
-  Lemma remove_first_removes (l : list (nat * bool * str)) idx : NoDup (map hid_of l) -> In idx (map hid_of l) ->
-    ~ In idx (map hid_of (remove_first (fun x => (fst (fst x) =? idx)%nat) l)).
-  Proof.
-    induction l as [|y r IH]; cbn; intros ND I; [destruct I|]. inversion ND as [|? ? NI ND']; subst.
-    destruct (fst (fst y) =? idx)%nat eqn:E.
-    - apply Nat.eqb_eq in E. unfold hid_of in NI. rewrite E in NI. exact NI.
-    - apply Nat.eqb_neq in E. cbn. intros [X|X]; [unfold hid_of in X; contradiction|].
-      destruct I as [I|I]; [unfold hid_of in I; contradiction|]. apply (IH ND' I X).
-  Qed.
-
-  (* the world and the state after the ready signal reached handler idx; g: what happened to the handler record *)
-  Lemma Core_ready (fire : bool) (g : ihandler -> ihandler) idx pv fo
-        mstk mreq mty mln mist mpr mhd mrc mfi mer mfo mpv u l ex hs :
+  (* the world and the state after the ready signal (idx, b, data) reached handler idx; g: what happened to the handler record *)
+  Lemma Core_ready (fire b : bool) (g : ihandler -> ihandler) idx data pv fo
+        mstk mreq mty mln mist mpr mhd mrc mfi mer mfo mpv mls u l ex hs :
     Core {| m_stack := mstk; m_req := mreq; m_typed := mty; m_line := mln; m_istack := mist; m_proc := mpr;
-            m_hand := mhd; m_recv := mrc; m_fired := mfi; m_must := None; m_err := mer; m_follow := mfo; m_prev := mpv |} u l ex hs ->
+            m_hand := mhd; m_recv := mrc; m_fired := mfi; m_must := None; m_err := mer; m_follow := mfo; m_prev := mpv; m_last := mls |} u l ex hs ->
     (forall h, ih_owner (g h) = ih_owner h) ->
     (forall h, ih_cb (g h) = if fire then false else ih_cb h) ->
+    (forall h, ih_success (g h) = b) ->
+    (b = true -> forall h, ih_value (g h) = Some data) ->
     (fire = true -> mem idx mfi = false /\ idx < length (st_ih u)) ->
-    (forall sg', In sg' l -> sg_cls sg' = CLS_READY -> sg_a sg' <> idx) ->
-    In idx (map hid_of mhd) ->
+    PSub ((idx, b, data) :: map triple (filter isready l)) mhd ->
     Core {| m_stack := mstk; m_req := mreq; m_typed := mty; m_line := mln; m_istack := mist; m_proc := mpr;
-            m_hand := remove_first (fun x => (fst (fst x) =? idx)%nat) mhd; m_recv := idx :: mrc;
+            m_hand := remove_first (rmatch idx b data) mhd; m_recv := idx :: mrc;
             m_fired := if fire then idx :: mfi else mfi;
-            m_must := None; m_err := mer; m_follow := fo; m_prev := Some (T_READY, pv) |}
+            m_must := None; m_err := mer; m_follow := fo; m_prev := Some (T_READY, pv);
+            m_last := (idx, Some (b, data)) :: mls |}
          (upd_ih idx g u) l ex hs.
   Proof.
-    intros HC G1 G2 FI OTH INH. core_open HC. core_auto; rewrite ?upd_nth_length; auto.
+    intros HC G1 G2 G3 G4 FI PS. core_open HC. core_auto; rewrite ?upd_nth_length; auto.
     - intros j. ihcases j idx u; rewrite ?G1, ?G2.
       + destruct fire; [discriminate|]. intros X. destruct (c_cb_req0 _ X) as [A B]. split; [exact A|exact B].
       + intros X. destruct (c_cb_req0 _ X) as [A B]. split; [exact A|]. destruct fire; [|exact B].
@@ -2544,17 +2742,17 @@ Section Scr.
     - intros j. ihcases j idx u.
       + intros _. rewrite Nat.eqb_refl. reflexivity.
       + intros X. specialize (c_recv0 _ X). unfold mem in c_recv0. rewrite c_recv0. apply orb_true_r.
-    - intros j M. apply orb_true_iff in M. destruct M as [M|M].
-      + apply Nat.eqb_eq in M. subst j. apply in_map_iff in INH. destruct INH as (x0 & E0 & I0).
-        destruct (c_hand_lt0 x0 I0) as [A B]. rewrite E0 in A, B. split; [exact A|split; [exact B|]].
-        apply remove_first_removes; [exact c_hand_nd0|]. apply in_map_iff. eauto.
-      + destruct (c_recv_fresh0 j M) as (A & B & C). split; [exact A|split; [exact B|]].
-        intros I. apply C. apply in_map_iff in I. destruct I as (x & E & I). apply in_map_iff. exists x. split; [exact E|].
-        eapply remove_first_sub, I.
-    - intros sg' I CR. apply remove_first_in; [auto|]. cbn. apply Nat.eqb_neq. apply OTH; assumption.
-    - apply remove_first_nodup, c_hand_nd0.
-    - intros x I. apply c_hand_lt0. eapply remove_first_sub, I.
+    - intros j. rewrite nth_upd_nth. destruct (j =? idx)%nat eqn:EJ; cbn [andb].
+      + destruct (idx <? length (st_ih u))%nat eqn:LK.
+        * intros _. rewrite G3. exists data. split; [reflexivity|]. intros X. apply G4. exact X.
+        * apply Nat.eqb_eq in EJ. subst j. apply Nat.ltb_ge in LK. rewrite nth_overflow by exact LK. cbn. discriminate.
+      + apply c_last0.
+    - intros F. apply FreshInv_ready; [apply c_fresh0, F|]. eapply PSub_in; [exact PS|left; reflexivity].
+    - apply PSub_remove_match. exact PS.
   Qed.
+
+  Lemma PSub_cons_mono {A} (x : A) a b : PSub a b -> PSub (x :: a) (x :: b).
+  Proof. intros [r P]. exists r. cbn. apply perm_skip, P. Qed.
 
   Lemma H_ready n s sg idx data : SP n -> Inv s -> SigPre sg idx s -> sg_cls sg = CLS_READY ->
     W n (input_ready_handler specs idx sg) (HPost s sg idx (H_READY idx)) (emit (EHandler (H_READY idx) (sg_id sg) data) s).
@@ -2564,12 +2762,12 @@ Section Scr.
     rewrite (at_m _ _ _ _ _ _ HAt) in SPR.
     assert (PL : pendl (emit (EHandler (H_READY idx) (sg_id sg) data) s) = pendl s) by reflexivity.
     set (l := pendl s) in *. set (ex := ext s) in *. clearbody l ex.
-    destruct m as [mstk mreq mty mln mist mpr mhd mrc mfi mmu mer mfo mpv].
+    destruct m as [mstk mreq mty mln mist mpr mhd mrc mfi mmu mer mfo mpv mls].
     destruct HQt as [HQf HQm]. cbn in HQf, HQm, SPR. subst mmu.
     core_open HC.
     assert (C : mchk {| m_stack := mstk; m_req := mreq; m_typed := mty; m_line := mln; m_istack := mist; m_proc := mpr;
                         m_hand := mhd; m_recv := mrc; m_fired := mfi; m_must := None; m_err := mer; m_follow := mfo;
-                        m_prev := mpv |} (EHandler (H_READY idx) (sg_id sg) data) = true) by (destruct HQf as [->|[q ->]]; reflexivity).
+                        m_prev := mpv; m_last := mls |} (EHandler (H_READY idx) (sg_id sg) data) = true) by (destruct HQf as [->|[q ->]]; reflexivity).
     pose proof (At_emit _ _ _ _ _ _ _ HAt C) as H1. clear C. cbn [mstep] in H1. rewrite hready_ne in H1.
     set (s1 := emit (EHandler (H_READY idx) (sg_id sg) data) s) in *.
     assert (FIN : forall o s2, EndOK o s2 ->
@@ -2577,25 +2775,26 @@ Section Scr.
     { intros o s2 EO MH. unfold HPost. cbn zeta.
       destruct (EndOK_end _ _ (H_READY idx) (sg_id sg) EO) as (I3 & F3 & P3 & _ & M3 & _).
       split; [exact I3|]. split; [left; exact F3|]. split.
-      - intros _ LE. destruct (MH LE) as [P2 M2]. rewrite M3, P3, M2. destruct (SPR ltac:(lia)) as [A1 A2].
-        split; [exact A1|]. intros sg' I. apply A2. eapply PSub_in; eauto.
+      - intros _ LE. destruct (MH LE) as [P2 M2]. rewrite M3, P3, M2.
+        eapply PSub_trans; [|apply (SPR ltac:(lia))]. apply PSub_cons_mono, PSub_map, PSub_filter, P2.
       - intros X. rewrite CL in X. discriminate X. }
     unfold input_ready_handler.
     destruct (sg_a sg =? idx)%nat eqn:EA; cbn [negb].
     - (* the signal is for this handler *)
-      apply Nat.eqb_eq in EA. destruct (SPR (Nat.eq_le_incl _ _ (eq_sym EA))) as [INH OTH].
+      apply Nat.eqb_eq in EA. pose proof (SPR (Nat.eq_le_incl _ _ (eq_sym EA))) as PS. unfold triple at 1 in PS. rewrite EA in PS.
+      assert (INH : In (idx, sg_b sg, sg_data sg) mhd) by (eapply PSub_in; [exact PS|left; reflexivity]).
       seqs. step H1. seqs. eapply a_ev; [exact H1| |].
       { unfold mchk, mchk_all, mchk17, mchk18, mchk06.
-        cbn [m_must T_INPUT T_READY T_SHOW T_SEPARATOR T_REFUSED T_PROMPT T_GOT Nat.eqb andb].
-        rewrite hand_has_in by (cbn [m_hand]; rewrite <- EA; exact INH).
-        assert (NR : mem idx mrc = false).
-        { destruct (mem idx mrc) eqn:M; [|reflexivity]. destruct (c_recv_fresh0 _ M) as (_ & _ & C). exfalso. apply C.
-          apply in_map_iff. exists (triple sg). split; [exact EA|exact INH]. }
-        unfold mchk_once. cbn [T_READY Nat.eqb nth0 nth m_recv]. rewrite NR.
-        destruct HQf as [->|[q ->]]; reflexivity. }
+        cbn [m_must T_INPUT T_READY T_SHOW T_SEPARATOR T_REFUSED T_PROMPT T_GOT T_WAITED Nat.eqb andb].
+        rewrite hand_has_in by (cbn [m_hand]; exact INH).
+        assert (NR : mchk_once {| m_stack := mstk; m_req := mreq; m_typed := mty; m_line := mln; m_istack := mist; m_proc := mpr;
+                        m_hand := mhd; m_recv := mrc; m_fired := mfi; m_must := None; m_err := mer; m_follow := mfo;
+                        m_prev := mpv; m_last := mls |} (EUser T_READY [idx; b2n (sg_b sg)] (sg_data sg)) || negb fresh = true).
+        { destruct fresh eqn:F; [|apply orb_true_r].
+          destruct (FreshInv_ready _ _ _ _ _ _ _ (c_fresh0 eq_refl) INH) as [_ NR].
+          unfold mchk_once. cbn [T_READY Nat.eqb nth0 nth m_recv]. rewrite NR. reflexivity. }
+        rewrite NR. destruct HQf as [->|[q ->]]; reflexivity. }
       intros s2 H2. cbv beta iota.
-      assert (OTH' : forall sg', In sg' l -> sg_cls sg' = CLS_READY -> sg_a sg' <> idx) by (rewrite <- EA; exact OTH).
-      assert (INH' : In idx (map hid_of mhd)) by (apply in_map_iff; exists (triple sg); split; [exact EA|exact INH]).
       destruct (sg_b sg) eqn:SB; cbn [negb]; rewrite ?SB in H2.
       + (* a successful result *)
         seqs. step H2. eapply a_rd; [exact H2|]. rewrite !ih_of_upd_ih. rewrite upd_ih_comp in H2.
@@ -2610,7 +2809,7 @@ Section Scr.
           unfold ready_base in H2. mnorm H2.
           apply wpS_seq. step H2. rewrite upd_ih_comp in H2.
           eapply t_process_input; [exact HS|exact H2| |exact HQf|exact OL|exact OP| |].
-          -- eapply (Core_ready true); [exact HC|reflexivity|reflexivity|intros _; split; assumption|exact OTH'|exact INH'].
+          -- eapply (Core_ready true true); [exact HC|reflexivity|reflexivity|reflexivity|reflexivity|intros _; split; assumption|exact PS].
           -- intros ST. destruct (c_args0 ST _ _ _ RQ) as [_ A2]. exact A2.
           -- intros o sx EO. apply FIN; [exact EO|]. intros LE. lia.
         * rewrite len_upd_ih. destruct ((idx =? idx)%nat && (idx <? length (st_ih u))%nat); cbn [ih_cb set]; rewrite CB.
@@ -2619,13 +2818,13 @@ Section Scr.
           all: unfold ready_base in H2; mnorm H2.
           all: eapply a_ret; [exact H2|]; apply FIN; [|intros LE; lia].
           all: eapply EndOK_of; [exact H2| |reflexivity|unfold mchk07; cbn [m_follow]; destruct HQf as [->|[q ->]]; reflexivity].
-          all: eapply (Core_ready false); [exact HC|reflexivity|reflexivity|discriminate|exact OTH'|exact INH'].
+          all: eapply (Core_ready false true); [exact HC|reflexivity|reflexivity|reflexivity|reflexivity|discriminate|exact PS].
       + (* a failed request: only the flags are set *)
         rewrite (muser_ready_nofire _ idx false (sg_data sg)) in H2 by (left; reflexivity).
         unfold ready_base in H2. mnorm H2.
         eapply a_ret; [exact H2|]. apply FIN; [|intros LE; lia].
         eapply EndOK_of; [exact H2| |reflexivity|unfold mchk07; cbn [m_follow]; destruct HQf as [->|[q ->]]; reflexivity].
-        eapply (Core_ready false); [exact HC|reflexivity|reflexivity|discriminate|exact OTH'|exact INH'].
+        eapply (Core_ready false false); [exact HC|reflexivity|reflexivity|reflexivity|discriminate|discriminate|exact PS].
     - (* the signal is for another handler: nothing happens *)
       apply Nat.eqb_neq in EA.
       eapply a_ret; [exact H1|]. apply FIN.
@@ -2636,7 +2835,7 @@ Section Scr.
   (* ------------------------------------------------------------ the loop's own steps keep the invariant *)
   Lemma quiet_neutral m e : Quiet m -> neutral e = true -> mstep m e = m /\ mchk m e = true.
   Proof.
-    intros [HQf HQm] NE. destruct m as [mstk mreq mty mln mist mpr mhd mrc mfi mmu mer mfo mpv]. cbn in HQf, HQm. subst mmu.
+    intros [HQf HQm] NE. destruct m as [mstk mreq mty mln mist mpr mhd mrc mfi mmu mer mfo mpv mls]. cbn in HQf, HQm. subst mmu.
     destruct e; try discriminate NE; split; try reflexivity; destruct HQf as [->|[qq ->]]; reflexivity.
   Qed.
 
@@ -2680,7 +2879,7 @@ Section Scr.
   Proof.
     intros HI. destruct (Inv_open_eq _ HI) as (m & u & hs & HAt & HC & HQt).
     assert (E : mstep m EKill = m /\ mchk m EKill = true).
-    { destruct HQt as [HQf HQm]. destruct m as [mstk mreq mty mln mist mpr mhd mrc mfi mmu mer mfo mpv]. cbn in HQf, HQm. subst mmu.
+    { destruct HQt as [HQf HQm]. destruct m as [mstk mreq mty mln mist mpr mhd mrc mfi mmu mer mfo mpv mls]. cbn in HQf, HQm. subst mmu.
       split; [reflexivity|]. destruct HQf as [->|[q ->]]; reflexivity. }
     destruct E as [E1 E2]. pose proof (At_emit _ _ _ _ _ _ EKill HAt E2) as H'. rewrite E1 in H'.
     split; [apply (at_a _ _ _ _ _ _ H')|]. rewrite (at_m _ _ _ _ _ _ H'). exact HQt.
@@ -2690,7 +2889,7 @@ Section Scr.
   Proof.
     intros [HA [HQf HQm]]. split.
     - apply acc_emit. split; [exact HA|]. remember (MWs s) as m.
-      destruct m as [mstk mreq mty mln mist mpr mhd mrc mfi mmu mer mfo mpv]. cbn in HQf, HQm. subst mmu.
+      destruct m as [mstk mreq mty mln mist mpr mhd mrc mfi mmu mer mfo mpv mls]. cbn in HQf, HQm. subst mmu.
       destruct HQf as [->|[q ->]]; reflexivity.
     - rewrite MW_emit. split; [left; reflexivity|reflexivity].
   Qed.
@@ -2700,7 +2899,7 @@ Section Scr.
                | ESigNew _ _ _ _ | EEnq _ _ | EDropped _ => True | _ => False end ->
     mstep m e = m /\ mchk m e = true.
   Proof.
-    intros [HQf HQm] NE. destruct m as [mstk mreq mty mln mist mpr mhd mrc mfi mmu mer mfo mpv]. cbn in HQf, HQm. subst mmu.
+    intros [HQf HQm] NE. destruct m as [mstk mreq mty mln mist mpr mhd mrc mfi mmu mer mfo mpv mls]. cbn in HQf, HQm. subst mmu.
     destruct e; try contradiction; split; destruct HQf as [->|[qq ->]]; reflexivity.
   Qed.
 
@@ -2751,13 +2950,10 @@ Section Scr.
     change (pendl (emit (EDispatch (sg_id sg) (active s) (length (levels s))) s0)) with (pendl s0).
     change (ext (emit (EDispatch (sg_id sg) (active s) (length (levels s))) s0)) with (ext s).
     split.
-    - intros CL _. split; [apply (c_p_ready _ _ _ _ _ HC _ INS CL)|].
-      pose proof (c_p_nodup _ _ _ _ _ HC) as ND.
-      assert (PF : Permutation (map sg_a (filter isready (pendl s))) (map sg_a (filter isready (sg :: pendl s0))))
+    - intros CL _. eapply PSub_perm; [|exact (c_p_ready _ _ _ _ _ HC)].
+      assert (PF : Permutation (map triple (filter isready (pendl s))) (map triple (filter isready (sg :: pendl s0))))
         by (apply Permutation_map, perm_filter, PD).
-      pose proof (Permutation_NoDup PF ND) as ND'. cbn [filter] in ND'. unfold isready at 1 in ND'. rewrite CL, Nat.eqb_refl in ND'.
-      cbn [map] in ND'. inversion ND' as [|? ? NI _]; subst.
-      intros sg' I CL' E. apply NI. rewrite <- E. apply in_map. apply filter_In. split; [exact I|]. unfold isready. rewrite CL'. reflexivity.
+      cbn [filter] in PF. unfold isready at 2 in PF. rewrite CL, Nat.eqb_refl in PF. cbn [map] in PF. exact PF.
     - intros CL _. split; [apply (c_p_recv _ _ _ _ _ HC _ INS CL)|].
       pose proof (c_fl_cnt _ _ _ _ _ HC) as CNT.
       assert (PF : Permutation (filter isrecv (pendl s)) (filter isrecv (sg :: pendl s0))) by (apply perm_filter, PD).
@@ -2813,7 +3009,6 @@ Section Scr.
     assert (R1 : isready (mk_signal id sp) = false) by (unfold isready; cbn; rewrite CL; reflexivity).
     assert (R2 : isrecv (mk_signal id sp) = true) by (unfold isrecv; cbn; rewrite CL; reflexivity).
     destruct C. constructor; auto.
-    - intros sg [<-|I] E; [cbn in E; rewrite CL in E; discriminate E|auto].
     - cbn [filter]. rewrite R1. assumption.
     - intros sg [<-|I] E; [exact DT|auto].
     - intros sp' I. apply c_e_recv0. right. exact I.
@@ -2852,8 +3047,9 @@ Section Scr.
     split; [eapply Rk_of_At; eauto|].
     unfold SigPre in *. rewrite (at_m _ _ _ _ _ _ H2), (at_e _ _ _ _ _ _ H2). rewrite (at_m _ _ _ _ _ _ HAt) in SP.
     destruct SP as [S1 S2]. pose proof (at_l _ _ _ _ _ _ H2) as PL. split.
-    - intros CL LE. destruct (S1 CL LE) as [A B]. split; [exact A|]. intros sg' I CL'.
-      pose proof (PSub_in _ _ _ PL I) as I'. destruct I' as [<-|I']; [discriminate CL'|auto].
+    - intros CL LE. eapply PSub_trans; [|exact (S1 CL LE)]. apply PSub_cons_mono.
+      pose proof (PSub_map triple _ _ (PSub_filter isready _ _ PL)) as X. cbn [filter] in X.
+      change (isready (fst (new_signal s exception_spec))) with false in X. exact X.
     - intros CL E. destruct (S2 CL E) as (A & B & C). split; [exact A|]. split; [|exact C].
       pose proof (PSub_length _ _ (PSub_filter isrecv _ _ PL)) as LN. cbn [filter] in LN.
       change (isrecv (fst (new_signal s exception_spec))) with false in LN. rewrite B in LN. apply length_zero_nil. cbn in LN. lia.
@@ -2964,10 +3160,10 @@ Section Scr.
   Lemma Inv_top s : Inv s -> Inv (emit ETop s).
   Proof.
     intros HI. destruct (Inv_open_eq _ HI) as (m & u & hs & HAt & HC & HQt).
-    destruct m as [mstk mreq mty mln mist mpr mhd mrc mfi mmu mer mfo mpv]. destruct HQt as [HQf HQm]. cbn in HQf, HQm. subst mmu.
+    destruct m as [mstk mreq mty mln mist mpr mhd mrc mfi mmu mer mfo mpv mls]. destruct HQt as [HQf HQm]. cbn in HQf, HQm. subst mmu.
     assert (C : mchk {| m_stack := mstk; m_req := mreq; m_typed := mty; m_line := mln; m_istack := mist; m_proc := mpr;
                         m_hand := mhd; m_recv := mrc; m_fired := mfi; m_must := None; m_err := mer; m_follow := mfo;
-                        m_prev := mpv |} ETop = true) by (destruct HQf as [->|[q ->]]; reflexivity).
+                        m_prev := mpv; m_last := mls |} ETop = true) by (destruct HQf as [->|[q ->]]; reflexivity).
     pose proof (At_emit _ _ _ _ _ _ _ HAt C) as H'. mnorm H'.
     eapply At_Inv; [exact H'| |split; [left; reflexivity|reflexivity]].
     core_open HC. core_auto.
@@ -2976,7 +3172,7 @@ Section Scr.
   Lemma res_acc Q o s : (forall o s, Q o s -> acc s) -> res acc Dead Q o s -> acc s.
   Proof. intros H R. destruct o as [|[| |]| |]; cbn in R; try exact R; try (eapply H; exact R). apply R. Qed.
 
-  Theorem session_acc fuel : forall acts s, Inv s -> acts_wf N strict fargs acts = true ->
+  Theorem session_acc fuel : forall acts s, Inv s -> acts_wf N strict fresh fargs acts = true ->
     acc (snd (app_session specs fuel acts s)).
   Proof.
     induction acts as [|a r IH]; intros s HI WF; cbn [app_session snd]; [apply HI|].
@@ -3006,12 +3202,12 @@ Section Scr.
 End Scr.
 
 (* ====================================================================== Part 3: every session *)
-Lemma spec_wf_default n strict fargs : spec_wf n strict fargs default_spec = true.
+Lemma spec_wf_default n strict fresh fargs : spec_wf n strict fresh fargs default_spec = true.
 Proof. reflexivity. Qed.
 
-Lemma Inv_init specs specl typed quit run_empty nosep strict fargs o s1 :
+Lemma Inv_init specs specl typed quit run_empty nosep strict fresh fargs o s1 :
   exec (screen_code specs) 20 (CProg app_initialize) (init_state (sstate0 specl typed quit run_empty)) = (o, s1) ->
-  Inv specs (length specl) typed quit nosep strict fargs s1.
+  Inv specs (length specl) typed quit nosep strict fresh fargs s1.
 Proof.
   intros E. cbn in E. inversion E; subst o s1. clear E.
   unfold Inv. split; [reflexivity|]. split; [repeat constructor|]. split.
@@ -3028,29 +3224,25 @@ Proof.
     + intros n _. split; reflexivity.
     + intros n. unfold ih_of. cbn [st_ih]. rewrite D. cbn. discriminate.
     + intros n. unfold ih_of. cbn [st_ih]. rewrite D. cbn. discriminate.
-    + intros n X. discriminate X.
+    + intros n. unfold ih_of. cbn [st_ih]. rewrite D. cbn. discriminate.
+    + intros _. constructor; cbn; [intros k X; discriminate X|apply NoDup_nil|intros x []|apply NoDup_nil|intros k []].
     + intros pa X. discriminate X.
     + reflexivity.
     + apply map_length.
     + intros d [].
     + intros _ n scr args X. discriminate X.
     + reflexivity.
-    + intros sg [].
-    + constructor.
+    + apply PSub_refl.
     + intros sg [].
     + intros sp [].
     + cbn. lia.
     + cbn. discriminate.
-    + constructor.
-    + intros x [].
-    + constructor.
-    + intros n [].
   - split; [left; reflexivity|reflexivity].
 Qed.
 
-Lemma wf_specs_all strict fargs specs specl : (forall n, specs n = nth n specl default_spec) ->
-  forallb (spec_wf (length specl) strict fargs) specl = true ->
-  forall scr, spec_wf (length specl) strict fargs (specs scr) = true.
+Lemma wf_specs_all strict fresh fargs specs specl : (forall n, specs n = nth n specl default_spec) ->
+  forallb (spec_wf (length specl) strict fresh fargs) specl = true ->
+  forall scr, spec_wf (length specl) strict fresh fargs (specs scr) = true.
 Proof.
   intros HS WF scr. rewrite HS. destruct (Nat.lt_ge_cases scr (length specl)) as [L|L].
   - rewrite forallb_forall in WF. apply WF. apply nth_In, L.
@@ -3061,19 +3253,59 @@ Lemma nosep_nth specs specl : (forall n, specs n = nth n specl default_spec) ->
   forall scr, nth scr (map sc_no_separator specl) false = sc_no_separator (specs scr).
 Proof. intros HS scr. rewrite HS. change false with (sc_no_separator default_spec). apply map_nth. Qed.
 
-(* every event of every well-formed session is accepted by the four acceptors together *)
-Theorem all_accepted strict fargs specs specl typed quit run_empty fuel acts :
+Lemma forallb_and_split {A} (f g h : A -> bool) l : Forall (fun c => f c = g c && h c) l ->
+  forallb f l = forallb g l && forallb h l.
+Proof.
+  induction 1 as [|x r Hx Hr IH]; cbn; [reflexivity|]. rewrite Hx, IH.
+  destruct (g x), (h x), (forallb g r), (forallb h r); reflexivity.
+Qed.
+
+Lemma scmd_wf_fresh N strict fargs c :
+  scmd_wf N strict true fargs c = scmd_wf N strict false fargs c && scmd_noask c.
+Proof.
+  induction c using scmd_ind'.
+  - destruct c; try contradiction; cbn; rewrite ?andb_true_r; reflexivity.
+  - cbn [scmd_wf scmd_noask]. rewrite (forallb_and_split _ _ _ t H), (forallb_and_split _ _ _ e H0).
+    destruct (forallb (scmd_wf N strict false fargs) t), (forallb scmd_noask t),
+             (forallb (scmd_wf N strict false fargs) e), (forallb scmd_noask e); reflexivity.
+Qed.
+
+Lemma cmds_wf_fresh N strict fargs l :
+  cmds_wf N strict true fargs l = cmds_wf N strict false fargs l && forallb scmd_noask l.
+Proof. unfold cmds_wf. apply forallb_and_split. apply Forall_forall. intros c _. apply scmd_wf_fresh. Qed.
+
+(* a well-formed session without InputHandler objects of the application's own *)
+Lemma wf_session_fresh strict fargs specl quit acts :
+  wf_session_gen strict false fargs specl quit acts = true -> no_handler_objects specl acts = true ->
+  wf_session_gen strict true fargs specl quit acts = true.
+Proof.
+  unfold wf_session_gen, no_handler_objects. intros W NO.
+  apply andb_true_iff in W. destruct W as [W W3]. apply andb_true_iff in W. destruct W as [W1 W2].
+  apply andb_true_iff in NO. destruct NO as [N1 N2].
+  apply andb_true_iff. split; [apply andb_true_iff; split|].
+  - rewrite forallb_forall in *. intros sp I. specialize (W1 sp I). specialize (N1 sp I).
+    unfold spec_wf, spec_noask in *. rewrite !cmds_wf_fresh.
+    repeat (apply andb_true_iff in W1; destruct W1 as [W1 ?]). repeat (apply andb_true_iff in N1; destruct N1 as [N1 ?]).
+    repeat (apply andb_true_iff; split); try assumption.
+    rewrite forallb_forall in *. intros x Ix. rewrite cmds_wf_fresh. apply andb_true_iff. split; auto.
+  - exact W2.
+  - unfold acts_wf in *. rewrite forallb_forall in *. intros a I. specialize (W3 a I). specialize (N2 a I).
+    destruct a; [|reflexivity]. rewrite cmds_wf_fresh. apply andb_true_iff. split; assumption.
+Qed.
+
+(* every event of every well-formed session is accepted by the acceptors together *)
+Theorem all_accepted strict fresh fargs specs specl typed quit run_empty fuel acts :
   (forall n, specs n = nth n specl default_spec) ->
-  wf_session_gen strict fargs specl quit acts = true ->
-  sok (chk_all strict quit (map sc_no_separator specl)) typed
+  wf_session_gen strict fresh fargs specl quit acts = true ->
+  sok (chk_all strict fresh quit (map sc_no_separator specl)) typed
       (rev (trace (snd (app_run_all specs specl typed quit run_empty fuel acts)))) = true.
 Proof.
   intros HS WF. unfold wf_session_gen in WF.
   apply andb_true_iff in WF. destruct WF as [WF W3]. apply andb_true_iff in WF. destruct WF as [W1 W2].
   unfold app_run_all.
   destruct (exec (screen_code specs) 20 (CProg app_initialize) (init_state (sstate0 specl typed quit run_empty))) as [o s1] eqn:E.
-  apply (session_acc specs (length specl) typed quit (map sc_no_separator specl) strict fargs
-           (wf_specs_all strict fargs specs specl HS W1) W2 (nosep_nth specs specl HS) fuel acts s1).
+  apply (session_acc specs (length specl) typed quit (map sc_no_separator specl) strict fresh fargs
+           (wf_specs_all strict fresh fargs specs specl HS W1) W2 (nosep_nth specs specl HS) fuel acts s1).
   - eapply Inv_init; exact E.
   - exact W3.
 Qed.
